@@ -12,1373 +12,1344 @@ Definition show_fres (r : fres) : string :=
   end.
 Definition check (rs : list rune) : string := digest (show_fres (format_res rs)).
 Definition full (rs : list rune) : string := show_fres (format_res rs).
-Eval vm_compute in ("<<<M3813>>>" ++ check (runes_of_ascii "
-options{ 
-BodyLength
-
-    =
-
-    string; trueish	= ""it's"" i8i8  =""// no comment"" 
-      // trailing space 
-  	roots
-
-    // a // b
-    // packet A { u8 x, }
-	=	// `tick` ""quote"" 'q'
-    """ ++ [28040; 24687]%N ++ runes_of_ascii """
-;	// a // b
-	falsey
-= 
-'\x00'  ;
-    }
-packet 
-metadata { packetx
-    {repeat 
-rootA
-x_y_z `tab	here`,
-repeat
-pack
-    ,
-Logon{ u16  msg_type
-
-,
-	u8  BodyLength
-	`
-`
-
-    , 
-zchar[ 3
-]int,
-
-}
-,
-a1
-	T	,
-	}
-,	// `tick` ""quote"" 'q'
-	repeat
-
-    f32
-o`crlf
-line`,
-    i32
-rootA ,
-	int32 matchKey	, @leftPad 
-
-    // a // b
-	// @lengthOf(
-  (
-    )
-x_y_z  {  match	body  as u8x
-	{
-	[
-	""{,}""
-]
-
-:
-u8x
-, 
-3:
-	u8x
-	,
-
-    4294967296: As
-
-    ,
-
-[	""CRC32""
-]	:
-	A, 255	// packet A { u8 x, }
-	  : body
-    //
-
-, 	 // c
-42
-
-    :
-x_y_z}
-, }
-
-    ,
-	repeat	body float
-
-    ,
-
-}// trailing space 
-		packet trueish	{stringy
-
-    @lengthOf(	float  )
-
-    `{ , }` , repeat	// packet A { u8 x, }
-
-i64_  ,
-uint16 string_ 
-	// `tick` ""quote"" 'q'
-  	@calculatedFrom(
-    ""\" ++ [233]%N ++ runes_of_ascii """) `
-`
-    ,// a // b
-
-	@tag( 0123456789 
-) 
-char[ 
-  //x
-    4294967296 ]calculatedFrom@lengthOf(int
-
-)`line1
-line2`
-
-    ,// packet A { u8 x, }
-match	rootA
-as
-    asx	{ ""\" ++ [233]%N ++ runes_of_ascii """
-:
-
-    f32a
-    ,  ""\n"":
-
-rootA[""a\\"" 
-    //
-  //
-    ,
-0123456789]	: crc , 1	: msg_type
-    ,	""a	b"" 
-:
-
-    stringy  // packet A { u8 x, }
-
-  ,
-    }
-// " ++ [27880; 37322]%N ++ runes_of_ascii "
-		,	repeat  len { 
-string_ {	i16
-	_x, 
-_x {
-
-repeat
-uint8x
-a1 
-,
-
-char[ 42
-
-]zchar
-
-`say ""hi""`	,
-
-    zchar[ 7
-
-    ]
-uint8x ,	}
-, repeat
-i8i8
-body ,  } 
-	// " ++ [128512]%N ++ runes_of_ascii " emoji
-	, uint8
-T	@lengthOf( repeatCount
-
-    )
-    ,}	, 
+Eval vm_compute in ("<<<M3891>>>" ++ check (runes_of_ascii "MetaData string_ {
 }
 
-    root	packet
-
-    asx
-{
-@calculatedFrom(	""x y""  )
-	repeat
-pack, repeat
-string_{u8 metadata
-    ,	} , @calculatedFrom(""abc""
-
-) roots 
-@lengthOf(
-
-    T	) `` 
-,	match
-asx as uint8x	{  3
-
-    :
-u8x
-	,	} 
-	// a // b
-	  ,  // trailing space 
-  u8x  @calculatedFrom(""{,}""
-
-)
-
-, }	packet 
-o// " ++ [128512]%N ++ runes_of_ascii " emoji
-  	{
-	string
-Logon	,
-
-    charz 
-metadata
-
-    ,
-
-match // c
-
-	len as
-    float  {
-
-255
-: 
-      //	t
-	uint8x,
-
-""CRC32""	: 
-As,  1
-:
-body
-
-    ,
-	7 
-: options1	,
-	[
-""" ++ [128512]%N ++ runes_of_ascii """
-
-    , ""it's""//
-    ]
-
-    :repeatCount
-
-    } ,
-
-@leftPad ( ) 
-@calculatedFrom( ""x y""  )	@leftPad  ( ' '
-
-) repeat	lengthOf
-
-,zchar[42 
-]
-	Logon@calculatedFrom( 	 // packet A { u8 x, }
-
-  """" )  ,  } 
-//x
-")).
-Eval vm_compute in ("<<<M1268>>>" ++ check (runes_of_ascii "options { Logon = ""abc""
-    ;options1
-=  0
-;
-len ='0' ; tag = float64;
-}packet options1 { @lengthOf( Header) int16 BodyLength , //
-@tag(
-7 ) @calculatedFrom( """ ++ [233]%N ++ runes_of_ascii "t" ++ [233]%N ++ runes_of_ascii """ ) @lengthOf(
-    //	t
-    i8i8 ) char[3 ]
-// " ++ [27880; 37322]%N ++ runes_of_ascii "
-//x
-tag `// not a comment`  , match
-    // trailing space 
-    body  as f32a { 3
-    :As } ,
-@lengthOf( a1
-    )	zchar[
-00 ] pack @calculatedFrom( ""x y""
-    ) , @lengthOf(
-// packet A { u8 x, }
-/// triple
-msg_type ) @calculatedFrom(
-    ""a	b"") @calculatedFrom( """ ++ [128512]%N ++ runes_of_ascii """  )
-    repeatCount
-{
-    char[]//	t
-string_
-,
-    match
-x as repeatCount { 10 // " ++ [128512]%N ++ runes_of_ascii " emoji
-:a1 ,
-    65535
-    // packet A { u8 x, }
-    : // c
-u8x , 10: T  ,""// no comment"" : i8i8
-, 3:lengthOf , 0: chars	, } , match x
-as pack	{ 7:Foo	1 :msg_type ,
-0123456789 :
-    o,	007	:	MetaDataX ""1"" :falsey ,
-    }
-,	repeat
-    int8
-    Header`say ""hi""` ,  } ,
-    BodyLength @calculatedFrom( """ ++ [28040; 24687]%N ++ runes_of_ascii """
-    ) /// triple
-, //x
-lengthOf`crlf
-line` , @lengthOf( matchKey ) @calculatedFrom( ""a	b""
-)@tag(0  )
-    repeat
-    MetaDataX // packet A { u8 x, }
-{ //
-stringy string_ ,
-    Packet @lengthOf( // " ++ [128512]%N ++ runes_of_ascii " emoji
-rootA ) ,} , @lengthOf( a1	) repeat chars {
-metadata
-// " ++ [128512]%N ++ runes_of_ascii " emoji
-//	t
-@lengthOf(	calculatedFrom
-// c
-// trailing space 
-)
-    `say ""hi""` ,
-    options1@lengthOf( charz  )  `line1
-line2` ,
-repeat
-MetaDataX{ repeat uint8
-falsey ,  zchar[
-0123456789 ]
-rootA @calculatedFrom( """ ++ [128512]%N ++ runes_of_ascii """
-    )
-    `say ""hi""`
-, }
-    ,} //	t
-, } MetaData charz /// triple
-{ uint32
-_x , matchKey float
-,  stringy a1 ,
-}packet
-Header { } packet	T
-    {
-    @tag(
-    7 )
-//x
-// trailing space 
-zchar[ 00	]
-    falsey
-`it's`, char[] MetaDataX ,
-BodyLength
-    { packetx// " ++ [27880; 37322]%N ++ runes_of_ascii "
-int ,} ,@lengthOf(  Header
-    ) A , charz@lengthOf(	x_y_z ), int64
-charz, // " ++ [128512]%N ++ runes_of_ascii " emoji
-repeat
-    //
-    int64
-leftPad,@tag( 7)@calculatedFrom( ""{,}"" )
-pack
-    // trailing space 
-    ,
-}")).
-Eval vm_compute in ("<<<M510>>>" ++ check (runes_of_ascii "root
-packet
-Foo  {
-chars
-{ falsey body  , zchar[ 3	] repeatCount
-    `{ , }` , } ,
-@lengthOf(BodyLength ) i8 //	t
-Z9_
-    @lengthOf( trueish ) , // " ++ [128512]%N ++ runes_of_ascii " emoji
-@rightPad (
-) repeat Pad { _x@calculatedFrom( // `tick` ""quote"" 'q'
-""\" ++ [233]%N ++ runes_of_ascii """
-    )	, match msg_type as // @lengthOf(
-uint8x
-    { [ 1 , ""\n""
-    ,0, ""\n""] : Packet ""CRC32"":
-pack,} , } ,  @calculatedFrom( ""a\""b"" ) repeat body {
-char[ 007 ] i64_ // `tick` ""quote"" 'q'
-`
-` ,
-    match charz
-    as pack{ 65535 :
-    u8x 65535 :	zchar
-    ,[ 255 ] // trailing space 
-:	chars
-// `tick` ""quote"" 'q'
-// " ++ [128512]%N ++ runes_of_ascii " emoji
-,1
-:
-    stringy, [ """ ++ [28040; 24687]%N ++ runes_of_ascii """] : int	,0
-    :// " ++ [128512]%N ++ runes_of_ascii " emoji
-asx , } // " ++ [27880; 37322]%N ++ runes_of_ascii "
-, }
-,  match // c
-o
-    as
-// " ++ [128512]%N ++ runes_of_ascii " emoji
-// `tick` ""quote"" 'q'
-A
-    { 007
-    :
-calculatedFrom ,	""abc""
-:roots
-// packet A { u8 x, }
-// packet A { u8 x, }
-, ""`tick`"":Foo
-    ,
-    ""it's"":Foo , 007 :
-//	t
-// packet A { u8 x, }
-float,
-} ,@leftPad
-(' '
-// trailing space 
-// `tick` ""quote"" 'q'
-)
-// `tick` ""quote"" 'q'
-// trailing space 
-repeat repeatCount	, char[ 007 ]
-u128
-// `tick` ""quote"" 'q'
-// packet A { u8 x, }
-`crlf
-line`,} //
-packet asx {
-charz { rootA
-//	t
-// trailing space 
-@calculatedFrom( """ ++ [233]%N ++ runes_of_ascii "t" ++ [233]%N ++ runes_of_ascii """
-) ,  }, }
-packet msg_type
-{
-}MetaData  o{ f32
-msg_type,
-    int64 body
-    , } root packet body {  @tag(1
-    ) @calculatedFrom(	""`tick`""
-)
-    @tag(
-    0123456789
-) metadata
-    {pack i64_ , } ,  repeat zchar[ 7
-    // trailing space 
-    ] asx ,
-chars @calculatedFrom(""\n"" ) , repeat zchar[
-    4294967296 ]
-    x  ,@rightPad (
-'\x00' )u8
-    msg_type `" ++ [233]%N ++ runes_of_ascii "`
-    ,
-float64
-pack @lengthOf(
-    MetaDataX
-    )
-,	}")).
-Eval vm_compute in ("<<<M239>>>" ++ check (runes_of_ascii "packet x_y_z {
-packetx { i16 pack `doc` ,
-    repeat char[
-    255
-]leftPad
-    ,
-} , u8x , match o as roots {
-[ // a // b
-0123456789 ]
-    // packet A { u8 x, }
-    : x_y_z [""a\\""
-    ] : packetx
-    , }
-,  repeat charz{	int32 i64_ `{ , }`,
-}  ,  }
-    packet x_y_z { @calculatedFrom(
-""CRC32""
-    )
-@tag( 00 ) @lengthOf(x ) match As as
-stringy
-    { 1	: i64_
-    ,// " ++ [27880; 37322]%N ++ runes_of_ascii "
-[""it's""
-,
-""1"" ,
-""x y"" //
-, 4294967296
-    ,
-""\n"" , ""x y"" ] :
-u128 ,00 : calculatedFrom
-,	[ // " ++ [128512]%N ++ runes_of_ascii " emoji
-4294967296
-    , ""// no comment""
-    , 42
-    ,
-3,""{,}""
-    // packet A { u8 x, }
-    ]  :	charz} ,
-@calculatedFrom( ""a\\""
-)  Logon A ,chars  @lengthOf(Logon
-), @rightPad
-('0' )@tag(	0 ) @rightPad  ( '0' ) string Foo // trailing space 
-`a\`
-    ,
-}  packet packetx
-{repeat i64_
-    {  o @lengthOf(A) ,
-    },@tag(
-    42
-    ) repeat char[]
-    crc ,
-    @leftPad ( ) u16 roots , falsey @lengthOf( As) , repeat  Foo{ float32 f32a@calculatedFrom( ""`tick`"" )
-, len
-`
-`
-// a // b
-/// triple
-,
-    // packet A { u8 x, }
-    }, @leftPad
-('\x00' )	T@calculatedFrom( ""a	b"" ) `" ++ [28040; 24687; 31867; 22411]%N ++ runes_of_ascii "`,  char[]
-// c
-// " ++ [128512]%N ++ runes_of_ascii " emoji
-trueish `u8 x,` , @lengthOf(falsey
-    )
-    match
-    // " ++ [27880; 37322]%N ++ runes_of_ascii "
-    rootA
-    as BodyLength { // " ++ [128512]%N ++ runes_of_ascii " emoji
-[
-""CRC32"" ]: x ,
-// @lengthOf(
-// c
-42
-:
-// packet A { u8 x, }
-// `tick` ""quote"" 'q'
-BodyLength , // trailing space 
-} ,
-    }")).
-Eval vm_compute in ("<<<M4270>>>" ++ check (runes_of_ascii "
-root
-	packet 
-body {
-// `tick` ""quote"" 'q'
-  	@tag(
-
-10
-    )
-
-repeat	// trailing space 
-    len
-	{ // c
-
-repeat
-i32
-BodyLength ,
-
-    zchar[0123456789]trueish @lengthOf(
-    tag) 	 /// triple
-	,	}  ,
-u64
-
-rootA ,@tag(	0123456789//
-    	) char[ 1]i64_ `
-` 
-,  @tag(//	t
-0123456789  ) repeat
-
-char[]
-
-    _x
-    ,@tag(
-
-    7
-) 
-zchar[	// packet A { u8 x, }
-    0 ]	calculatedFrom @lengthOf(
-	repeatCount
-
-    )
-,
-    match i64_  
-  // a // b
-	//
-    	as
-Packet  {3 : charz
-    ,[	""a\\""
-	]	:  options1,
-    [ ""`tick`"" ,
-	0123456789 
-,
-
-    4294967296, ""a	b""	,	0123456789 , ""x y""
-
-, """ ++ [128512]%N ++ runes_of_ascii """
-, ""x y""
-    ]  :
-_x
-    ,
-""a\""b"" :
-    pack,	""it's""  :	crc	,
-    } ,}
-
-MetaData i8i8 {f32
-
-u
-
-    ,
-	} packet A
-    { zchar[	42 ]
-
-Pad  ,
-    u128  ,
-    @calculatedFrom(""x y""
-	)
-repeat  // `tick` ""quote"" 'q'
-	u16
-	u  ,
-
-char[
-
-00
-
-]	/// triple
-	u128,//	t
-  repeat
-    char[] u8x  `doc`	, }
-    packet  _x {
-	@lengthOf(
-rootA )
-
-    @tag(
-
-3) uint32
-
-msg_type
-, options1
-
-u128,char[]
-
-Pad,
-
-    @tag(007 
-)
-
-    f32a@lengthOf(
-    lengthOf	)
-	`// not a comment`,
-
-} 
-packet 	 // @lengthOf(
-	  metadata
-{ @leftPad
-
-    (
-'0'
-	)
-@tag( 0123456789) 
-@rightPad
-( )
-
-f32a  ,
+packet Packet {
+    // @lengthOf(
+    zchar[65535] metadata,
 }
-")).
-Eval vm_compute in ("<<<M1344>>>" ++ check (runes_of_ascii "packet As { }
-MetaData
-    // " ++ [128512]%N ++ runes_of_ascii " emoji
-    BodyLength { uint32
-Z9_ `// not a comment` , }
-    packet f32a
-    //x
-    { f64 T @lengthOf(	As	)`u8 x,` ,repeat
-i16 i64_ `" ++ [28040; 24687; 31867; 22411]%N ++ runes_of_ascii "` , char[
-007] falsey
-@lengthOf(  Pad )	,
-repeat
-leftPad
-{	u64 u8x
-,
-    char[]tag
-    ,	}// " ++ [128512]%N ++ runes_of_ascii " emoji
-, match As as len{ ""1"" :
-x_y_z ,	255 :
-    // c
-    len , 007: charz,
-    [ ""abc"" , 42, 10	, """ ++ [28040; 24687]%N ++ runes_of_ascii """ ,  ""it's""
-    ,//	t
-3
-    ] : // " ++ [27880; 37322]%N ++ runes_of_ascii "
-matchKey //	t
-, // `tick` ""quote"" 'q'
-} , // @lengthOf(
-} packet
-BodyLength { @calculatedFrom( ""// no comment""
-)@lengthOf( Logon ) @tag( 42 )
-//
-// " ++ [128512]%N ++ runes_of_ascii " emoji
-repeat rootA metadata
-,@tag(	4294967296)  repeat matchKey // @lengthOf(
-{ int8
-    pack
-,} ,
-    @tag(
-65535
-) @rightPad ( ) //
-@lengthOf( // " ++ [27880; 37322]%N ++ runes_of_ascii "
-Pad
-)uint8x `{ , }` ,  match  Foo
-as As {10 :
-    uint8x
-    ,0
-    : rootA // " ++ [128512]%N ++ runes_of_ascii " emoji
-, 007 : matchKey , [
-""x y"" ] :
-    u8x,}, float64 i64_
-@calculatedFrom( ""// no comment""// `tick` ""quote"" 'q'
-) , match
-    trueish as matchKey {
-// trailing space 
-// trailing space 
-""" ++ [233]%N ++ runes_of_ascii "t" ++ [233]%N ++ runes_of_ascii """:// trailing space 
-_x
-    , } ,
-chars @lengthOf( Packet) `crlf
-line` ,
-char[] x , } MetaData
-falsey //
-{ Z9_ options1
-``
-, } 	 ")).
-Eval vm_compute in ("<<<M4455>>>" ++ check (runes_of_ascii "packet zchar {
-    i8 uint8x `a\`,
-    match leftPad as matchKey {
-        007 : f32a,
-        7 : falsey,
-        3 : _x,
-        [""1""] : u8x,
-        //	t
-        ""it's"" : i8i8,
-        10 : pack,
+
+MetaData body {
+    u packetx,
+    char[] roots `" ++ [233]%N ++ runes_of_ascii "`,
+    i32 Header,
+    uint32 packetx,
+}
+
+packet Foo {
+    @rightPad()
+    match crc as u128 {
+        // c
+        ""it's"" : As,
+        0 : x_y_z,
+        """" : msg_type,
     },
-    repeat string rootA `say ""hi""`,
-    repeat int32 repeatCount `" ++ [233]%N ++ runes_of_ascii "`,
-    @lengthOf(calculatedFrom)
-    zchar[4294967296] T,
-    @tag(4294967296)
-    crc @calculatedFrom(""""),
-    @calculatedFrom(""abc"")
-    u8x @lengthOf(o) `crlf
+    match pack as x_y_z {
+        255 : msg_type,
+    },
+    i8 A,
+    int8 BodyLength @lengthOf(tag),
+    @calculatedFrom(""CRC32"")
+    match int as Header {
+        4294967296 : x_y_z,
+        // @lengthOf(
+    },
+    match chars as calculatedFrom {
+        [
+            0, 0, 1, 0123456789, 00,
+            ""a\""b"", 4294967296
+        ] : stringy,
+        ""`tick`"" : T,
+    },
+    @tag(0)
+    @tag(1)
+    @lengthOf(u8x)
+    u8x {
+        body,
+        repeat calculatedFrom x_y_z `two words`,
+    },
+    match falsey as leftPad {
+        007 : A,
+        [""" ++ [28040; 24687]%N ++ runes_of_ascii """] : tag,
+        1 : Pad,
+    },// c
+    float64 repeatCount,
+    @tag(10)
+    match stringy as Logon {
+        7 : Pad,
+    },
+}
+
+packet Packet {
+    @calculatedFrom(""\n"")
+    @calculatedFrom(""`tick`"")
+    matchKey,
+    @lengthOf(zchar)
+    roots {
+        repeat i16 Z9_,
+        match repeatCount as stringy {
+            [""x y""] : packetx,
+            [""" ++ [128512]%N ++ runes_of_ascii """, ""x y"", ""\n""] : crc,
+        },
+    },// packet A { u8 x, }
+    match tag as a1 {
+        ""abc"" : packetx,
+        1 : u8x,
+        1 : body,
+        007 : leftPad,
+        0123456789 : Header,
+    },
+    i16 x_y_z,
+    @calculatedFrom(""{,}"")
+    o `it's`,
+    string_ @calculatedFrom(""it's"") `crlf
+    line`,
+    match i8i8 as lengthOf {
+        [1, ""a\\"", 42, """", ""a\\""] : o,
+        10 : Foo,
+        //x
+        [7] : lengthOf,
+    },
+    repeat A {
+        repeat T {
+            char[007] i64_ @lengthOf(Packet),
+            match T as repeatCount {
+                ""x y"" : As,
+            },
+            repeat metadata,
+            msg_type {
+                float64 float,
+                i8 o `u8 x,`,
+                char[0] A @calculatedFrom(""1"") `two words`,
+                i8 body @lengthOf(Packet),
+            },//
+        },
+        rootA {
+            f32a @lengthOf(pack),
+        },
+        repeat char[] u,
+    },
+}")).
+Eval vm_compute in ("<<<M4243>>>" ++ check (runes_of_ascii "MetaData BodyLength {
+    zchar[42] falsey,
+    x_y_z trueish `{ , }`,
+    options1 Header `
+    `,
+    uint8 Header `tab	here`,
+    uint8 zchar,
+    float64 len,
+}
+
+packet chars {
+    zchar[00] options1,
+    zchar[7] Header,
+    @tag(0)
+    char[] MetaDataX `line1
+    line2`,
+    repeat metadata {
+        i64 MetaDataX,
+        int8 o,
+        leftPad Pad,
+        string Z9_ `u8 x,`,
+    },
+    @leftPad('0')
+    u64 calculatedFrom @calculatedFrom(""a\""b""),
+    @lengthOf(leftPad)
+    repeat Foo `line1
+    line2`,
+}
+
+packet options1 {
+    @tag(00)
+    body asx,
+    // a // b
+    // " ++ [128512]%N ++ runes_of_ascii " emoji
+    repeat MetaDataX {
+        repeat i64 u8x `" ++ [233]%N ++ runes_of_ascii "`,
+    },
+    pack @calculatedFrom(""CRC32"") `
+    `,
+    repeat Pad {
+        Foo {
+            repeat i8i8,
+            MetaDataX,
+            // @lengthOf(
+            lengthOf @calculatedFrom(""abc"") `// not a comment`,/// triple
+        },
+    },
+    float64 string_ @calculatedFrom(""it's"") `u8 x,`,
+    i8 Z9_ @lengthOf(_x),
+    BodyLength matchKey `tab	here`,
+    uint64 As @calculatedFrom(""// no comment""),
+}
+
+packet leftPad {
+    match packetx as Foo {
+        [""x y"", 3] : As,
+        00 : leftPad,
+        [""\n"", """"] : MetaDataX,
+        00 : x,
+        """" : int,
+    },
+    i32 Foo,
+    repeat string roots,
+    repeat body chars `" ++ [28040; 24687; 31867; 22411]%N ++ runes_of_ascii "`,
+    int `" ++ [233]%N ++ runes_of_ascii "`,
+    @rightPad(' ')
+    string BodyLength,
+    @lengthOf(lengthOf)
+    char uint8x `line1
+    line2`,
+    zchar[00] repeatCount @calculatedFrom(""" ++ [28040; 24687]%N ++ runes_of_ascii """),
+    @calculatedFrom(""a	b"")
+    falsey @calculatedFrom(""1"") `crlf
+    line`,
+}//x
+
+packet Header {
+    // trailing space 
+    @calculatedFrom(""" ++ [28040; 24687]%N ++ runes_of_ascii """)
+    int64 u `crlf
+    line`,
+    @calculatedFrom(""CRC32"")
+    // packet A { u8 x, }
+    int64 uint8x,
+    char[255] Foo `
+    `,
+}")).
+Eval vm_compute in ("<<<M3909>>>" ++ check (runes_of_ascii "packet a1 {
+    repeat uint8x {
+        zchar[3] metadata @lengthOf(chars) `it's`,
+        u8 packetx @calculatedFrom(""CRC32"") `two words`,
+        repeat leftPad {
+            match MetaDataX as f32a {
+                [4294967296] : packetx,
+                255 : As,
+                [""\n"", ""\" ++ [233]%N ++ runes_of_ascii """, 007, """ ++ [128512]%N ++ runes_of_ascii """, 7] : float,
+                0123456789 : u128,
+                ""a\""b"" : calculatedFrom,
+            },
+            match len as u {
+                [42, 4294967296] : a1,
+                ""it's"" : rootA,
+                7 : lengthOf,
+                ""`tick`"" : rootA,
+                4294967296 : calculatedFrom,
+            },
+            repeat string MetaDataX `it's`,
+        },
+        uint16 uint8x,
+    },
+    string_ @lengthOf(u),
+    zchar[0123456789] pack @calculatedFrom("""") `u8 x,`,
+    @lengthOf(x_y_z)
+    @lengthOf(u128)
+    @tag(007)
+    zchar[10] _x `doc`,
+    string BodyLength,
+    // `tick` ""quote"" 'q'
+    // `tick` ""quote"" 'q'
+    i64 msg_type `u8 x,`,
+    f64 Pad `say ""hi""`,
+    string float,
+    f64 lengthOf @calculatedFrom(""" ++ [28040; 24687]%N ++ runes_of_ascii """),// " ++ [128512]%N ++ runes_of_ascii " emoji
+}
+
+options {
+    // packet A { u8 x, }
+    matchKey = f32;
+}
+
+packet Foo {
+    repeat T,
+    repeat string_ {
+        i16 uint8x,
+    },
+    repeat falsey A `doc`,
+    repeat lengthOf i8i8 `tab	here`,
+    repeat char[10] x_y_z ``,//	t
+    @leftPad()
+    @rightPad()
+    options1 `doc`,
+    u32 packetx,
+    u8 float `crlf
     line`,
 }
 
-packet T {
-    i64 repeatCount,
-    calculatedFrom pack,
-    @calculatedFrom(""`tick`"")
-    f32a Foo,
-    match body as string_ {
-        ""packet"" : uint8x,
-        // @lengthOf(
-        """ ++ [128512]%N ++ runes_of_ascii """ : body,
-        007 : Logon,
-        ""it's"" : leftPad,
-        [255, 1, 0123456789, ""x y"", ""\" ++ [233]%N ++ runes_of_ascii """] : options1,
-    },
-    @rightPad('\x00')
-    // packet A { u8 x, }
-    match As as roots {
-        4294967296 : len,
-        """ ++ [28040; 24687]%N ++ runes_of_ascii """ : msg_type,
-    },
-    f32 chars,
-    // `tick` ""quote"" 'q'
-    // @lengthOf(
-    repeat calculatedFrom,
-    @calculatedFrom(""x y"")
-    f32 roots `{ , }`,
+packet tag {
 }
-
-root packet calculatedFrom {
-}")).
-Eval vm_compute in ("<<<M165>>>" ++ check (runes_of_ascii "packet uint8x { @lengthOf( Pad )
-    Foo ,} root packet Foo  {
-char[] i64_
-    @calculatedFrom( ""a	b"" ) `u8 x,`
-    // @lengthOf(
-    , zchar[
-    // trailing space 
-    3]
-    tag
-@lengthOf( tag ), @lengthOf(	falsey) options1
-//x
-/// triple
-@lengthOf(  repeatCount ) ,
-string
-matchKey `crlf
-line` ,} packet metadata { //	t
-uint32
-    i8i8 , }
-root packet
-Header {
-@lengthOf( _x ) @lengthOf(
-A )metadata
-    tag
-    // trailing space 
-    `
-` ,x_y_z `tab	here`
-    ,
-    Pad // " ++ [128512]%N ++ runes_of_ascii " emoji
-, @calculatedFrom(
-    """ ++ [128512]%N ++ runes_of_ascii """ )
-    //x
-    repeat string f32a`crlf
-line`, string packetx	@calculatedFrom( ""a\\""
+// " ++ [128512]%N ++ runes_of_ascii " emoji")).
+Eval vm_compute in ("<<<M1001>>>" ++ check (runes_of_ascii "packet zchar{uint32 msg_type `a\`	,	char[ // " ++ [27880; 37322]%N ++ runes_of_ascii "
+255 // @lengthOf(
+]packetx `doc`	, @calculatedFrom("""" ) char[] MetaDataX @lengthOf(	A
 )
-    , }  packet
-    // packet A { u8 x, }
-    u8x { pack, @calculatedFrom( ""// no comment"" // `tick` ""quote"" 'q'
-)packetx, match options1// trailing space 
-as chars { ""1"" :
-Logon
-// a // b
-// a // b
-, 7 :
-trueish } ,
-match asx  as
-    /// triple
-    Logon {	[ 3 ]: _x , [
-    ""// no comment"" , 7 , """ ++ [233]%N ++ runes_of_ascii "t" ++ [233]%N ++ runes_of_ascii """  ,""it's""
-,1 ]
-    : i8i8 // " ++ [27880; 37322]%N ++ runes_of_ascii "
-[
-/// triple
+    , @calculatedFrom(""it's""
+    ) // @lengthOf(
+string_
+@calculatedFrom( ""a\""b"" )
+`crlf
+line` , char[ 0123456789 ]A `u8 x,`,// trailing space 
+}
+// @lengthOf(
+// `tick` ""quote"" 'q'
+packet chars { @calculatedFrom( ""{,}"" )
+    match i64_ as MetaDataX { // `tick` ""quote"" 'q'
+""`tick`""
+:
+    roots, [ 4294967296	,
+// " ++ [128512]%N ++ runes_of_ascii " emoji
+// trailing space 
+""1""  ] :u  ,// trailing space 
+},
+f32a {
+    pack
+,
+packetx @calculatedFrom( ""a\\"" ) , float64 stringy @calculatedFrom(""// no comment""
+    )`{ , }`	,char[ 4294967296 ]Packet
+@calculatedFrom( ""a\""b"") , } , }  packet Packet
+    { repeatCount
+tag, char[ 1
+] crc `{ , }` , @leftPad( )
+    zchar[ 0	]Logon
+    @calculatedFrom( """ ++ [233]%N ++ runes_of_ascii "t" ++ [233]%N ++ runes_of_ascii """ // c
+) ,
+    leftPad
+// `tick` ""quote"" 'q'
+// " ++ [128512]%N ++ runes_of_ascii " emoji
+{
+    //	t
+    repeat
+    uint32 stringy , string Foo	@calculatedFrom( ""it's"")`doc`, string  Foo @lengthOf(zchar /// triple
+)
+, } //x
+, i64 body,repeat string x_y_z , zchar[ //x
+007]Packet`doc`
+    ,@tag( 65535 ) char[
+    0 ] float  , } packet
+// " ++ [128512]%N ++ runes_of_ascii " emoji
+// `tick` ""quote"" 'q'
+i8i8 { repeat
+    falsey`two words`, }
+options{roots =
+    ""\" ++ [233]%N ++ runes_of_ascii """
+o = '\x00' ;u = char[ 7
+]
+    metadata = true // trailing space 
+float
+=""\n"" ; }")).
+Eval vm_compute in ("<<<M673>>>" ++ check (runes_of_ascii "options
+    {  asx= true ; matchKey
+= ' '// packet A { u8 x, }
+;
+    Z9_  =int8 BodyLength=
+char[]
+}MetaData
+    calculatedFrom {
+float32 tag,  char[]Header , float64 charz
+, falsey
+Z9_ ,
+string
+    A, char[
+    65535] leftPad, }
+    packet BodyLength { i16
+    Foo , @tag( 65535 ) @lengthOf( lengthOf )@tag( 007)
+x@calculatedFrom( ""packet""  )	`u8 x,` , Logon	@calculatedFrom( ""1"" )
+`two words`, }	MetaData options1 // packet A { u8 x, }
+{ }
+packet Packet { pack// a // b
+,repeat char[] o ,@lengthOf(
+    // c
+    uint8x ) string_ //
+@calculatedFrom(""a\""b""
+),
+    @tag(
+0 )
+u16 repeatCount `
+`  , string
+Packet
+    , @tag(
+0123456789 //
+)  match x
+as zchar
+    { 42: msg_type , [ 3 ,""{,}"" ] :
 // " ++ [27880; 37322]%N ++ runes_of_ascii "
-""1"" ] : T , } , } // a // b")).
-Eval vm_compute in ("<<<M1281>>>" ++ check (runes_of_ascii "MetaData Packet  { string leftPad
-,metadata float
+//
+u,//
+4294967296: repeatCount , [ ""a\\"" ,	""`tick`"" , ""// no comment"" ,
+//	t
+// a // b
+3 ,
+""""	,
+    // packet A { u8 x, }
+    ""a\\"" ] :
+    i64_	, ""`tick`""/// triple
+: zchar, [
+    ""// no comment"" ]	:MetaDataX } // packet A { u8 x, }
+,
+    Foo @lengthOf( A
+    ) , char[65535
+] Pad `it's` , match
+    matchKey
+as
+x { [""" ++ [128512]%N ++ runes_of_ascii """  ,
+""\" ++ [233]%N ++ runes_of_ascii """ ,
+0123456789,//
+""CRC32""// @lengthOf(
+,
+""`tick`""
+    ,	""a\""b"",
+""a	b"" ] :stringy
+, } ,
+// " ++ [128512]%N ++ runes_of_ascii " emoji
+//	t
+repeat uint16 Logon
+//
+/// triple
+, }
+")).
+Eval vm_compute in ("<<<M238>>>" ++ check (runes_of_ascii "
+packet
+    tag{repeat
+    stringy {	repeat
+i32 lengthOf
+, // trailing space 
+string msg_type // " ++ [27880; 37322]%N ++ runes_of_ascii "
+@calculatedFrom( // " ++ [128512]%N ++ runes_of_ascii " emoji
+""// no comment"" ) `" ++ [233]%N ++ runes_of_ascii "` ,
+    zchar
+    { x @calculatedFrom( """ ++ [28040; 24687]%N ++ runes_of_ascii """ )
+    ,repeat u8x len , zchar[ 255 ] i8i8 , } ,
+x @calculatedFrom( ""CRC32"")
+`` ,} , packetx
+//	t
+//	t
+u8x, @calculatedFrom( ""packet"" )
+zchar[  007] body
+@calculatedFrom( ""CRC32"" )
+    , @lengthOf( x_y_z/// triple
+) char[]
+int
+    `" ++ [28040; 24687; 31867; 22411]%N ++ runes_of_ascii "` , zchar[ 42 ]
+Logon@calculatedFrom( ""// no comment""
+    ) ,
+    int8
+f32a , }packet  As { @calculatedFrom(
+""it's""
+)  int64 msg_type	@calculatedFrom( ""a\""b"" )`it's`, i8i8 pack , tag {i64 _x ,match As as f32a { // trailing space 
+007 : _x ,0123456789 : metadata
+    , }
+, }, @lengthOf( body )repeat
+u8
+f32a
+    `` , char[] Pad `line1
+line2` ,
+    @lengthOf(msg_type)  string len , @lengthOf(	a1) @tag(00
+) @rightPad('\x00' ) char[ 65535 ] Header ,// trailing space 
+@calculatedFrom(
+    // a // b
+    ""1""
+) @calculatedFrom(
+""a\\""  )
+    // @lengthOf(
+    @lengthOf( body
+//
+// " ++ [27880; 37322]%N ++ runes_of_ascii "
+)
+    i8
+x_y_z
+, }
+root packet a1 {
+    }
+    packet A{
+}
+    // " ++ [128512]%N ++ runes_of_ascii " emoji
+    packet calculatedFrom {}")).
+Eval vm_compute in ("<<<M3570>>>" ++ check (runes_of_ascii "
+packet i8i8 { options1
+
+    @calculatedFrom(
+
+    ""packet""
+// trailing space 
+  /// triple
+  )`crlf
+line`
+,@rightPad ( ' ' 	 //x
+)
+	string lengthOf  `" ++ [233]%N ++ runes_of_ascii "` 
+,
+
+    u64
+string_
+
+    ,  }
+
+options {
+options1=
+	false
+	;
+
+    } 
+MetaData
+
+    u {
+	a1	options1,lengthOf
+	// trailing space 
+    	//	t
+	x_y_z
+    `line1
+line2` , // c
+
+  MetaDataX
+
+rootA
+,
+zchar[ 255
+
+]
+
+len  ,
+
+    char[
+    007]int	//x
+
+`say ""hi""`, 
+    // @lengthOf(
+    //
+	  char[4294967296
+
+    ]// `tick` ""quote"" 'q'
+  stringy
+
+, 	 //	t
+    	}
+    root
+
+    packet
+u8x { Z9_ @lengthOf(
+Packet
+)
+
+    ,
+	@calculatedFrom(""packet"" ) // a // b
+    @rightPad
+	(
+'0'//
+) 
+@calculatedFrom(
+""it's""
+
+) 
+packetx
+`" ++ [28040; 24687; 31867; 22411]%N ++ runes_of_ascii "`,
+float64
+    Packet @calculatedFrom( ""`tick`""
+    )
+
+`a\`, 
+@leftPad(
+
+    '0'
+
+)
+    match
+len
+
+    as
+    rootA
+
+    { 
     // `tick` ""quote"" 'q'
-    `` , char[ //x
-1] u `
-`
-    , matchKey
+	""x y"" : 
+uint8x ""1""
+
+:asx	,
+
+""a\""b"" 
+:u8x ,
+	}
+    , 	 // " ++ [27880; 37322]%N ++ runes_of_ascii "
+
+	@lengthOf(  tag
+
+    ) trueish 
+As,
+@lengthOf( falsey
+    )  zchar[ 
+1]
+a1
+
+    , }
+    root
+packet 
+body	{
+	}
+
+")).
+Eval vm_compute in ("<<<M354>>>" ++ check (runes_of_ascii "// a // b
+packet chars {
+    i64_ tag `say ""hi""` , }
+// " ++ [128512]%N ++ runes_of_ascii " emoji
+// `tick` ""quote"" 'q'
+packet tag {
+}// c
+packet roots
+    { repeat //x
+x_y_z `
+`	, } packet lengthOf { // c
+i64 int`{ , }` , @lengthOf( trueish
+    ) @lengthOf( stringy // packet A { u8 x, }
+) // @lengthOf(
+repeat
+x repeatCount`u8 x,`,
+    char[]
+rootA ,uint16 int @calculatedFrom( // " ++ [128512]%N ++ runes_of_ascii " emoji
+""\" ++ [233]%N ++ runes_of_ascii """ ) `say ""hi""`/// triple
+,@lengthOf(
+string_
+    // a // b
+    )char[]
+    int @calculatedFrom(
+""a\\"" )  , @tag( 0 )@calculatedFrom(""\n""  )// " ++ [128512]%N ++ runes_of_ascii " emoji
+i32
+string_  @lengthOf(
+    falsey ) `say ""hi""` ,@tag(3
+) @lengthOf( BodyLength
+) repeat Z9_ {match// " ++ [27880; 37322]%N ++ runes_of_ascii "
+T // @lengthOf(
+as charz { // packet A { u8 x, }
+[ 255
+, ""a\""b"" ,
+    """" , 00
+    , 0123456789 ,""\n"" , ""\" ++ [233]%N ++ runes_of_ascii """//x
+]:
+x_y_z
+3 : Foo ,
+    // @lengthOf(
+    }
+    ,char[ 4294967296 ] calculatedFrom@lengthOf( Z9_ )	, } , i64
+    trueish
+    @lengthOf( /// triple
+T) `" ++ [233]%N ++ runes_of_ascii "` , @lengthOf( body
+)
+@lengthOf(
+matchKey // `tick` ""quote"" 'q'
+) tag trueish `` , } packet Foo {
+}")).
+Eval vm_compute in ("<<<M4287>>>" ++ check (runes_of_ascii "
+// @lengthOf(
+
+MetaData
+
+uint8x  { 
+char[
+42] 
+packetx  , }
+	packet
+    len
+
+    {
+}
+	MetaData Logon { 
+matchKey 
 u128
-`" ++ [28040; 24687; 31867; 22411]%N ++ runes_of_ascii "` , matchKey
-msg_type
-    `say ""hi""` ,
+
+    `
+`
+    , string
+	MetaDataX	`" ++ [233]%N ++ runes_of_ascii "`
+,
+
+    }MetaData
+
+    //
+    	//	t
+
+rootA
+{u32
+	i8i8
+
+,
+
 }
 root
-    packet string_{ @tag(
-1 )
-    //x
-    char[]
-    lengthOf`// not a comment` , @calculatedFrom( ""{,}""//
-)
-    // " ++ [128512]%N ++ runes_of_ascii " emoji
-    match string_ as T { 7 // a // b
-: leftPad, },
-    Logon @lengthOf(
-    stringy ) `crlf
-line` // c
-,@lengthOf( body
-) @tag( 255	)
-//
-// trailing space 
-repeat f32a	, uint32 f32a// c
-@lengthOf( asx
-)
-,
-    repeat char Packet , @leftPad (	' ' ) f32 leftPad ,  @tag(7
-) repeat Header , } packet x_y_z{ match /// triple
-u8x as leftPad
-    {
-4294967296 :crc
-    , ""\" ++ [233]%N ++ runes_of_ascii """ :
-matchKey , } ,
-    // " ++ [128512]%N ++ runes_of_ascii " emoji
-    @calculatedFrom(
-// `tick` ""quote"" 'q'
-// " ++ [27880; 37322]%N ++ runes_of_ascii "
-""1"" ) @tag(	00 )	@rightPad ( //
-' ' )
-BodyLength @lengthOf( uint8x ) ,
-Header `line1
-line2` ,	@calculatedFrom(
-    """" ) repeat	int32 As
-, } packet uint8x {
-i16 Header
-@lengthOf(calculatedFrom )
-, }
-")).
-Eval vm_compute in ("<<<M493>>>" ++ check (runes_of_ascii "packet
-    chars {// c
-string // " ++ [27880; 37322]%N ++ runes_of_ascii "
-metadata , i32 u8x @calculatedFrom( ""`tick`"" ) ,
-    repeat char[] stringy
-,
-char[ 10 ] pack
-    `u8 x,` // a // b
-,o ,
-falsey  @calculatedFrom(
-    //
-    ""`tick`""// c
-)
-    `it's`,
-    @leftPad
-// `tick` ""quote"" 'q'
-// a // b
-( )u32 body `u8 x,`,	@calculatedFrom(""packet"" // " ++ [128512]%N ++ runes_of_ascii " emoji
-)  char metadata
-`// not a comment`,
-    // " ++ [27880; 37322]%N ++ runes_of_ascii "
-    @lengthOf( A )
-    float64 _x @lengthOf(
-Header
-// " ++ [27880; 37322]%N ++ runes_of_ascii "
-// trailing space 
-) , body ,}
-    packet Header// trailing space 
-{ falsey
-// c
-// c
-,
-    match trueish as lengthOf { ""packet"" : i8i8 ""x y""  :
-falsey [
-""\" ++ [233]%N ++ runes_of_ascii """
-    ]: zchar	, 00 :
-    float ,
-""\n""	: f32a	, } , string A `two words`  ,repeat char[ 0
-    ] Z9_
-// c
-//
-`two words`,repeat Z9_ x , char
-    // `tick` ""quote"" 'q'
-    trueish,}MetaData x_y_z
-    { float32  x `a\` ,u128 i64_`a\`,
-    x_y_z trueish
-, u16 i64_ , }root
-packet pack { }options  { msg_type = 007 ; }")).
-Eval vm_compute in ("<<<M3590>>>" ++ check (runes_of_ascii "packet chars {
-    @leftPad('0')
-    char[] MetaDataX @lengthOf(Foo),
-    @lengthOf(chars)
-    repeat BodyLength,
-    @lengthOf(MetaDataX)
-    @lengthOf(A)
-    uint8x {
-        u16 Pad @lengthOf(charz) `line1
-        line2`,
-        i64_ {
-            match i8i8 as i8i8 {
-                7 : calculatedFrom,
-                255 : x_y_z,
-                0123456789 : rootA,
-                ""packet"" : string_,
-                0123456789 : chars,
-            },
-        },
-    },
-    zchar[3] Header `two words`,
-    i32 o,
-    @tag(4294967296)
-    pack ``,
-    repeatCount {
-        i8 i64_ `
-        `,
-        asx i64_,
-        crc {
-            repeat zchar[255] repeatCount,
-            repeat uint8 Packet,
-            char leftPad,
-            uint32 lengthOf @lengthOf(charz),
-        },
-    },
-    leftPad ``,
-    repeat int16 Pad,
-    repeat u matchKey,
-}")).
-Eval vm_compute in ("<<<M826>>>" ++ check (runes_of_ascii "packet i8i8
-{
-    @leftPad
-    // c
-    (// " ++ [128512]%N ++ runes_of_ascii " emoji
-'0'
-    // @lengthOf(
-    ) i16 int ,@calculatedFrom( ""\n"" ) crc @calculatedFrom(""abc"" //	t
-) ,
-    // packet A { u8 x, }
-    int16 trueish `it's`  , // trailing space 
-@rightPad (' ' )@tag(
-3 ) @calculatedFrom( """" ) pack
-{ i64_ falsey  ,
-i8i8  repeatCount , repeat u16 pack  , u128
-//x
-// " ++ [27880; 37322]%N ++ runes_of_ascii "
-@calculatedFrom( ""it's""
-    ) `" ++ [233]%N ++ runes_of_ascii "`
-, },
-@calculatedFrom( ""1"")
-match i64_ as a1{ 42
-:MetaDataX,[ ""{,}"",""abc""
-    , ""`tick`"",
-10
-    ]
-    : asx ,//
-65535
-: string_ }//x
-, @calculatedFrom(	""" ++ [128512]%N ++ runes_of_ascii """ )  @lengthOf( _x ) @rightPad ( ' '
-    ) x
-    {// packet A { u8 x, }
-f32 tag
-    @lengthOf(	calculatedFrom) ,	u32 Logon
-    `" ++ [28040; 24687; 31867; 22411]%N ++ runes_of_ascii "`, } , @lengthOf( // " ++ [128512]%N ++ runes_of_ascii " emoji
-zchar ) Packet matchKey ,@leftPad/// triple
-( '0') f32 charz
-`
-`//x
-, @rightPad
-    ('0'
-) char[3 ] stringy `tab	here`
-, }")).
-Eval vm_compute in ("<<<M1025>>>" ++ check (runes_of_ascii "  packet f32a {
-    @leftPad
-(/// triple
-)
-i32 repeatCount
-@calculatedFrom(
-    ""`tick`""	) `two words`
-,	repeat
-i32
-int
-    //x
-    ,
-char[ 00 ] Header
-    , repeat
-    zchar[ 10 ]	a1
-    ,string_ @calculatedFrom( ""// no comment""
-    ) , @leftPad
-    ( // `tick` ""quote"" 'q'
-)
-// trailing space 
-// c
-@tag(00	) @lengthOf( // packet A { u8 x, }
-string_
-)
-repeat
-    zchar[ 3]
-    x_y_z , repeat
-uint16 rootA`line1
-line2`, u8 roots @lengthOf( tag ) ,T@lengthOf(	A) `// not a comment`	,// a // b
-} MetaData
-    rootA//	t
-{
-pack
-    calculatedFrom , trueish packetx `` , Packet
-msg_type `it's` //x
-,	u64 repeatCount
-, uint8
-Z9_
-    `" ++ [28040; 24687; 31867; 22411]%N ++ runes_of_ascii "` , } options { chars  = u8 falsey
-=
-'\x00' MetaDataX
-=
-    char[] ; repeatCount =char[]
-} MetaData string_
-{ // @lengthOf(
-string chars , } 	 ")).
-Eval vm_compute in ("<<<M145>>>" ++ check (runes_of_ascii "
-packet
-// `tick` ""quote"" 'q'
-// `tick` ""quote"" 'q'
-rootA{ @tag( 3  ) zchar[
-00 ] // trailing space 
-x_y_z
-    `" ++ [28040; 24687; 31867; 22411]%N ++ runes_of_ascii "`  , _x ,
-    // a // b
-    float64
-    A
-@lengthOf( //
-u8x ) , u8 rootA`line1
-line2`	, zchar[ 7
-    ] // c
-stringy,
-match Header as f32a { ""\" ++ [233]%N ++ runes_of_ascii """:	o ,[
-    // `tick` ""quote"" 'q'
-    4294967296
-, 7 ,// c
-4294967296
-, ""packet"" , ""a	b"" , ""CRC32"" ,	7 ,
-""a	b""// trailing space 
-]	: // packet A { u8 x, }
-repeatCount, ""a\""b"" :
-    Header  [""a\""b"" ] :
-crc  ,	[  007
-,
-007, ""abc"" ] :
-    metadata, 4294967296 : chars ,
-} // " ++ [128512]%N ++ runes_of_ascii " emoji
-, @tag( 1 ) i8 matchKey	`a\` ,
-// @lengthOf(
-// " ++ [128512]%N ++ runes_of_ascii " emoji
-@lengthOf(
-    body ) tag ,@lengthOf( matchKey
-)
-    @lengthOf(  o	)  @lengthOf( pack
-    ) repeat u {
-calculatedFrom @lengthOf( falsey  ), } , }
-")).
-Eval vm_compute in ("<<<M137>>>" ++ check (runes_of_ascii "root packet x_y_z{
-    }packet calculatedFrom {char[] Foo @lengthOf( Pad
-    ) ,} root packet // @lengthOf(
-u128 // @lengthOf(
-{} packet u8x { @lengthOf(asx ) match charz
-    as msg_type { // @lengthOf(
-[ 0123456789
-    ] : i64_	,
-    [ 0]
-: a1  }
-,f32 Pad , //x
-match /// triple
-falsey as BodyLength
-    { """ ++ [233]%N ++ runes_of_ascii "t" ++ [233]%N ++ runes_of_ascii """
-:// trailing space 
-charz 10 :
-    roots ,
-10
-: x_y_z// " ++ [27880; 37322]%N ++ runes_of_ascii "
-,
-    ""`tick`"" :_x ,""// no comment""
-: chars [
-    10,
-    1
-]:	Foo ,	}	, repeat u64	u8x
-    `doc`
-,
-    @lengthOf(
-body) uint64 options1  `` ,
-@calculatedFrom(
-""a\""b"")
+packet i64_ // `tick` ""quote"" 'q'
+    	{
+
+u32 calculatedFrom
+
     // trailing space 
-    match  Packet as x_y_z{[ 007 ]
-    // a // b
-    :
-tag  ,[ ""a\""b"" ] : rootA , //	t
-"""" : x_y_z // " ++ [27880; 37322]%N ++ runes_of_ascii "
-65535 :
-asx  ,	""" ++ [233]%N ++ runes_of_ascii "t" ++ [233]%N ++ runes_of_ascii """ : o  , } , }
-")).
-Eval vm_compute in ("<<<M21>>>" ++ check (runes_of_ascii "packet	Z9_ {repeat options1 {
-    repeat i16 o
-// a // b
 /// triple
-`two words`
-, match charz
-as o { [ 4294967296 ,
-""// no comment""	]:
-// `tick` ""quote"" 'q'
-// packet A { u8 x, }
-u
-    , } , match float
-    as
-    tag
-{ [
-00] : leftPad ,	[
-""" ++ [233]%N ++ runes_of_ascii "t" ++ [233]%N ++ runes_of_ascii """ ,
-""\n""
-, 0 //
-, ""CRC32"" ,
-    1
-    , """ ++ [28040; 24687]%N ++ runes_of_ascii """ , 255
-    , 1]
-: options1, 255	: x  , 00 : x ,
-    } , repeat
-string asx `u8 x,` , } ,
-// " ++ [27880; 37322]%N ++ runes_of_ascii "
-// a // b
-zchar[ 3	] falsey ,}
-    packet u
-{
-//x
-// trailing space 
-zchar[ 0 ]asx ,
-    @tag(
-    10
-)
-    @rightPad (' ' ) @rightPad
+	,
+
+@tag(
+    10	)  @rightPad  () @leftPad
+
+(
+' ')	uint16
+// c
+	// " ++ [128512]%N ++ runes_of_ascii " emoji
+rootA , @lengthOf(
     //x
-    ( '\x00') Logon
-    @calculatedFrom( """ ++ [128512]%N ++ runes_of_ascii """ ) , repeat char[255 ] calculatedFrom	, uint16 lengthOf,
-    }root /// triple
-packet  pack { }
-")).
-Eval vm_compute in ("<<<M1116>>>" ++ check (runes_of_ascii "packet MetaDataX { Foo , @rightPad( ' '
-// " ++ [128512]%N ++ runes_of_ascii " emoji
-// c
-) match options1 as
-    o { ""a\""b""
-// c
-// packet A { u8 x, }
-:
-T[7 , ""// no comment""
-//	t
-//
-, ""{,}"" ,
-7 ,	0 , 0 ,	""packet"" , 1 ] :
-u128 , }	,@calculatedFrom( ""x y"" )// @lengthOf(
-zchar[ 0123456789] Packet	,
-    @rightPad ( '\x00'
-    // packet A { u8 x, }
-    )  repeat chars	x_y_z , repeat packetx leftPad , match uint8x as crc
-{ [ """ ++ [233]%N ++ runes_of_ascii "t" ++ [233]%N ++ runes_of_ascii """  , ""CRC32"" ]
-// packet A { u8 x, }
-//
-: body
-, }
-,@calculatedFrom(
-""it's"" ) i8 zchar ,@lengthOf( MetaDataX )@rightPad ( ) @lengthOf( falsey) int , i8
-trueish `say ""hi""` ,
-@lengthOf(
-matchKey	)repeat A // trailing space 
-`a\` ,//x
-}
-")).
-Eval vm_compute in ("<<<M774>>>" ++ check (runes_of_ascii "MetaData
-chars{ } root packet
-leftPad
-{
-@calculatedFrom(// " ++ [128512]%N ++ runes_of_ascii " emoji
-""it's"" ) @calculatedFrom( ""\n"")@leftPad
-( '\x00' )
-repeat zchar[10
-]Z9_ `" ++ [28040; 24687; 31867; 22411]%N ++ runes_of_ascii "`
-, } root // @lengthOf(
-packet matchKey
-{ @leftPad
-( '0' ) zchar[ 3
-    // trailing space 
-    ]
-As,
-A
-    asx ,
-@lengthOf(
-    // packet A { u8 x, }
-    int
-)
-    @leftPad ( ) repeat string	chars	, @tag( 0123456789
-)@tag( 007
-) match
-    MetaDataX
-    as	charz {
-7 :	x_y_z
-, [
-    ""packet""
-    // @lengthOf(
-    ]: //x
-roots , [""\n"" ]	:
-A
-, 7 :T , 42  : matchKey  ""x y""
-: i64_ , } , } // " ++ [27880; 37322]%N ++ runes_of_ascii "
-options {body
-    = ""1""  ; x =char[/// triple
-10
-] ; } 	 ")).
-Eval vm_compute in ("<<<M1053>>>" ++ check (runes_of_ascii "//	t
-packet len {repeat
-Logon
-    { i16 leftPad, }
-    ,
-@calculatedFrom( ""a\""b"" ) repeat/// triple
-u16
-// trailing space 
-//x
-u,
+Pad
+	)
+	pack
 @calculatedFrom(
-    // a // b
-    ""abc""
-)
-Header `two words` , u8	pack@calculatedFrom(""" ++ [233]%N ++ runes_of_ascii "t" ++ [233]%N ++ runes_of_ascii """
-    // " ++ [128512]%N ++ runes_of_ascii " emoji
-    )  , } // @lengthOf(
-packet string_
-{ stringy @calculatedFrom( // " ++ [128512]%N ++ runes_of_ascii " emoji
-""it's"" )
-    ,	}packet
-chars
-{
-    // `tick` ""quote"" 'q'
-    match
-matchKey as _x
-{
-    ""abc"" :
-Packet// " ++ [128512]%N ++ runes_of_ascii " emoji
-} , // @lengthOf(
-char Foo `doc` ,match
-    charz as
-    Foo
-    {[ 1  , ""\" ++ [233]%N ++ runes_of_ascii """ ]	: Logon ,}	,@lengthOf(
-pack)/// triple
-Packet ,	} // a // b")).
-Eval vm_compute in ("<<<M4438>>>" ++ check (runes_of_ascii "
-root 
-packet 
-falsey {  @tag(
-0123456789 
-)
-@tag(	3 )Pad
+""x y""
 
-    {
-	rootA
-	, 
-	    //x
-// a // b
-  x	{
-    repeat	int {
+    ) `it's`, uint8
+matchKey 
+,@tag(
+1	// " ++ [128512]%N ++ runes_of_ascii " emoji
+	  )match Pad
 
-    // " ++ [128512]%N ++ runes_of_ascii " emoji
+as 
+calculatedFrom  {	[
+    ""\n""
 
-	// @lengthOf(
-    	match
-	f32a 
-as crc {
-
-[
-
-    """ ++ [128512]%N ++ runes_of_ascii """ , 
-""packet""
-
-    ]  :
-	metadata 
-, 	 //	t
-[42  , ""abc""	, 00 
 ,
 
-""a\\""
+    7
+	,	1
+, """ ++ [233]%N ++ runes_of_ascii "t" ++ [233]%N ++ runes_of_ascii """
+	]
+	: len
 
-] 
-        // a // b
-	: 	 //x
-		metadata
-	,[ ""a\""b""	]:
+    00:
+Packet
 
-    Header , 
-""\n""  :
-asx
-	},} 
-, x_y_z 
-@calculatedFrom(
-""1"" 	 // " ++ [128512]%N ++ runes_of_ascii " emoji
-
-) ,zchar[
-	42 ]
-	string_ 
-``  // packet A { u8 x, }
-,  matchKey	pack	, 
-}, }
-    , @lengthOf(Logon	)  @leftPad ('\x00' 
-) As	u8x , }
-")).
-Eval vm_compute in ("<<<M442>>>" ++ check (runes_of_ascii "packet u8x {match BodyLength	as // c
-string_{ // c
-""\" ++ [233]%N ++ runes_of_ascii """	:
-zchar
+    ,
 }
-    ,}  packet// trailing space 
-metadata
-    {// `tick` ""quote"" 'q'
-@tag( //
-0123456789	) /// triple
-@leftPad // `tick` ""quote"" 'q'
-( '\x00' )repeat	char[] trueish , repeat metadata {
-char[]
-    float `line1
+
+    ,
+
+    @lengthOf(	string_  
+  // @lengthOf(
+    )
+
+match	matchKey
+as MetaDataX
+{ [ ""`tick`""
+    , 42  ,
+    ""x y""
+
+    ,
+    """ ++ [233]%N ++ runes_of_ascii "t" ++ [233]%N ++ runes_of_ascii """ ,
+
+4294967296]	:	o // packet A { u8 x, }
+
+  , }
+
+    ,uint8	charz
+
+@calculatedFrom(""a	b""
+    ),@calculatedFrom(""a\""b""	) repeat
+
+u8x
+{	pack  ,
+
+    }
+    , } ")).
+Eval vm_compute in ("<<<M1096>>>" ++ check (runes_of_ascii "
+MetaData T { char[
+    007] x	`// not a comment` , u8 x_y_z
+`// not a comment`
+//	t
+// trailing space 
+, As body // " ++ [27880; 37322]%N ++ runes_of_ascii "
+, T chars `tab	here`
+    , }	root packet
+len { A  , @calculatedFrom(""" ++ [128512]%N ++ runes_of_ascii """ )
+crc ,x_y_z {falsey { Foo {x@lengthOf(
+MetaDataX)`u8 x,` , u64 As
+    `// not a comment`	,} , u32 //x
+lengthOf `two words` , char[ 42 ]
+x_y_z
+    // `tick` ""quote"" 'q'
+    @lengthOf(Z9_ )
+,} ,uint64 asx `it's` , pack	packetx ,
+}
+    , @rightPad	( ) match
+    Foo
+    as Packet
+{3:
+float
+// a // b
+// " ++ [27880; 37322]%N ++ runes_of_ascii "
+, ""x y""  : chars
+, [ 7 ] :	trueish	,
+    ""`tick`""
+:
+    x ,
+    ""\" ++ [233]%N ++ runes_of_ascii """ : Pad ""// no comment"" : MetaDataX , } , x repeatCount
+    //
+    `" ++ [28040; 24687; 31867; 22411]%N ++ runes_of_ascii "` , repeat char[
+7
+] falsey ,
+    @lengthOf(int ) @calculatedFrom(
+    //
+    """"
+    /// triple
+    ) @tag( 255
+)match
+u as chars{ 0: Pad 0 : charz,
+    ""a\""b"" :	matchKey
+    , 42 /// triple
+: x}
+, @calculatedFrom(
+""abc""	) repeat
+int64
+len  , }")).
+Eval vm_compute in ("<<<M4066>>>" ++ check (runes_of_ascii "options{ LittleEndian
+=
+true; StringPrefixLenType
+
+=u64; 
+ArrayPrefixLenType
+    = u8 
+;FixedStringPadChar
+= '0'
+;
+}
+	packet
+    Reject 
+{ 
+i32
+    Ref
+    ,
+	repeat
+
+f64	OrderId, repeat
+	InNote12
+	{
+
+u8
+
+    pad0,  }
+
+, @leftPad
+(
+
+    ' ' 
+)char[ 6
+    ] 
+count	,  }  packet
+    Logout	{	zchar[ 6
+	]	Tail  ,
+	repeat
+string
+
+venue
+	,
+	}
+packet
+	Cancel 
+{
+
+u64	count ,
+
+repeat  char[
+    5
+
+]
+lastPx
+,
+    i64
+
+Tail
+,
+repeat InF140 {
+	repeat
+Logout
+,  repeat
+Reject
+    ,
+	}
+    ,
+    } root
+packet
+Trade	{
+repeat
+
+    InMsgkind39 { repeat
+
+Reject,
+
+    char[  4 
+]
+	Px  , }
+	,
+string
+    Acct,
+	uint16 price	, 
+f32 
+OrderId,u16 x,
+    u16
+clOrdID
+	@lengthOf(
+Body 
+) 
+,
+    match
+    x
+as 
+Body { 178 :Logout
+	, 
+13 :	Cancel ,
+
+    174
+
+:
+    Reject
+,
+	}
+	,
+
+    u16
+
+    Flags
+	@calculatedFrom( ""CR\
+C32""  )  ,
+}
+")).
+Eval vm_compute in ("<<<M679>>>" ++ check (runes_of_ascii "root packet
+body { @tag( 255) chars calculatedFrom ,
+    //	t
+    @rightPad ( '0' )
+    @calculatedFrom(
+    ""a	b"" // " ++ [128512]%N ++ runes_of_ascii " emoji
+) @rightPad ( )
+stringy @calculatedFrom( ""it's""  )// " ++ [128512]%N ++ runes_of_ascii " emoji
+, repeat string trueish /// triple
+,  @calculatedFrom(
+    // `tick` ""quote"" 'q'
+    """"
+    ) asx
+@lengthOf(	options1 ) `doc`  , u32 Logon ,float64// packet A { u8 x, }
+i64_
+    @lengthOf( metadata ) , @calculatedFrom( ""`tick`"") chars @lengthOf(len ) `line1
 line2`
-, char[// " ++ [128512]%N ++ runes_of_ascii " emoji
-00] T,
-uint8x {repeat len string_
-    `doc` , }
+,f32a
+    /// triple
+    {match trueish
+as roots{ ""1"" :
+    body""// no comment"" : Packet,[ 42 , ""it's"" ,
+    0, // " ++ [128512]%N ++ runes_of_ascii " emoji
+""it's"" ] : charz,""a\""b"" : stringy,
+// a // b
+//x
+}
+    , } ,
+uint8x { zchar[ 10 ]
+    As ,}// trailing space 
+, @tag( 0123456789) @rightPad (
+    '0' ) @calculatedFrom("""") asx@lengthOf(	trueish ) ,} root
+packet trueish{ }
+")).
+Eval vm_compute in ("<<<M1239>>>" ++ check (runes_of_ascii "
+MetaData
+    //	t
+    zchar { BodyLength rootA , //x
+u8x Z9_
+, zchar[
+    10 ] string_ , char[4294967296]i8i8 ,
+    } root packet
+    u{chars
+    , packetx @calculatedFrom(""" ++ [128512]%N ++ runes_of_ascii """ ) /// triple
+, f32	trueish // packet A { u8 x, }
+`` ,  uint8	Z9_
+    @calculatedFrom(
+    ""abc"" ) `line1
+line2`
+    , repeat MetaDataX { float64 crc`// not a comment` ,zchar[
+    0 ]Z9_ ,
+zchar[
+10 ] string_ ``
+, match
+    pack as
+    a1
+{ //	t
+""a	b""
+: falsey
+// " ++ [128512]%N ++ runes_of_ascii " emoji
+// " ++ [27880; 37322]%N ++ runes_of_ascii "
+, } ,
+// @lengthOf(
+// `tick` ""quote"" 'q'
+} , // " ++ [128512]%N ++ runes_of_ascii " emoji
+repeat
+char
+    As// `tick` ""quote"" 'q'
+, /// triple
+repeat// c
+Z9_// packet A { u8 x, }
+{ string Packet	@calculatedFrom(
+""packet"")
+    , } ,@calculatedFrom( //	t
+""`tick`""
+    ) repeat	i64 f32a `u8 x,` ,  matchKey@lengthOf(BodyLength)`line1
+line2`//x
+,}")).
+Eval vm_compute in ("<<<M3521>>>" ++ check (runes_of_ascii "options {
+    LittleEndian = false;
+    StringPrefixLenType = u16;
+    ArrayPrefixLenType = u32;
+}
+packet Order {
+    uint8 x,
+    repeat string venue,
+}
+packet Heartbeat {
+    i64 count,
+    zchar[1] Qty,
+    repeat InX29 {
+        InSeqno26 {
+            int64 f1,
+            char[5] Acct,
+            Order,
+        },
+        repeat InSide285 {
+            repeat Order,
+            char[10] Px,
+            zchar[9] OrderId,
+        },
+        char[] venue,
+        Order,
+    },
+    @rightPad('\x00') char[4] clOrdID,
+}
+root packet Party {
+    zchar[3] f1,
+    u32 clOrdID,
+    u32 Px @lengthOf(Body),
+    match clOrdID as Body {
+        [180, 64] : Heartbeat,
+        11 : Order,
+    },
+    u32 Side2 @calculatedFrom(""CRC32""),
+}
+")).
+Eval vm_compute in ("<<<M3952>>>" ++ check (runes_of_ascii "options { 
+LittleEndian
+	=
+false; 
+StringPrefixLenType 
+= u16  ;
+ArrayPrefixLenType	= u32	;	}
+
+packet
+	Order { uint8 x  , repeat string
+    venue
+
+,
+	}
+packet Heartbeat
+{ i64
+count ,
+    zchar[
+1 ]Qty
+
+    ,
+	repeat
+InX29 { InSeqno26
+{	int64
+
+f1
+, char[	5]  Acct
+,Order  , }	,	repeat
+
+    InSide285 {repeat
+
+    Order
+
+, 
+char[
+	10]
+
+    Px
+,
+
+zchar[
+    9 ]
+OrderId , 
+},
+
+    char[] venue, Order
+,}	,
+@rightPad
+
+(
+	'\x00' )char[  4 ] clOrdID
+	, } root packet
+    Party	{ zchar[ 3 
+]
+	f1 
+, 
+u32
+
+clOrdID 
+,u32
+    Px
+	@lengthOf(
+    Body )  ,
+
+match
+clOrdID
+	as
+	Body
+    {
+[  180	,	64 ]
+	:	Heartbeat
+
+,
+	11
+	:Order , }
+
+    ,
+u32 Side2 
+@calculatedFrom( ""CRC32""
+    )	,  }
+")).
+Eval vm_compute in ("<<<M1236>>>" ++ check (runes_of_ascii "MetaData
+o { u128 a1 , _x	trueish `it's`
+,	zchar[
+42]
+    repeatCount,char[] T ,
+    float32 charz ,u16  falsey
+    , }	packet
+    Logon{
+}packet Header
+{ }	root packet
+rootA
+    //
+    {@calculatedFrom( ""{,}""
+)match Logon
+as x
+    //x
+    { 007 /// triple
+:Packet, } ,
+    } root
+packet msg_type { @tag( 42
+) char[] crc , @rightPad( //	t
+) trueish `tab	here`
+,len , As @calculatedFrom(
+""x y"" //
+)
+, @calculatedFrom(
+    //
+    ""`tick`"")
+// `tick` ""quote"" 'q'
+//	t
+@calculatedFrom(	""""
+// packet A { u8 x, }
+//	t
+)@calculatedFrom( ""x y"" )match Packet as
+    /// triple
+    BodyLength{	""\n""
+: u
+    ,
+} ,@calculatedFrom(  """"  ) repeat Logon `// not a comment` , }")).
+Eval vm_compute in ("<<<M4294>>>" ++ check (runes_of_ascii "packet Logon {
+    repeat char MetaDataX `say ""hi""`,
+    @lengthOf(packetx)
+    char[] repeatCount `doc`,
+    @leftPad('0')
+    @tag(7)
+    Header @calculatedFrom(""""),
+    @lengthOf(MetaDataX)
+    match x as Header {
+        ""x y"" : u8x,
+        """ ++ [128512]%N ++ runes_of_ascii """ : charz,
+        """ ++ [233]%N ++ runes_of_ascii "t" ++ [233]%N ++ runes_of_ascii """ : _x,
+        [3, 00] : uint8x,
+        ""it's"" : rootA,
+        [00, 65535] : zchar,
+    },
+    @calculatedFrom(""// no comment"")
+    int32 i64_,
+    repeat body {
+        zchar[10] BodyLength `line1
+        line2`,
+        lengthOf Logon,// @lengthOf(
+        repeat float64 i8i8,
+        char[0123456789] leftPad `
+        `,
+    },
+    repeat char[255] a1 `" ++ [28040; 24687; 31867; 22411]%N ++ runes_of_ascii "`,
+}")).
+Eval vm_compute in ("<<<M4264>>>" ++ check (runes_of_ascii "options {
+    LittleEndian = true;
+    FixedStringPadFromLeft = true;
+    FixedStringPadChar = '0';
+}
+
+packet Trade {
+    string clOrdID,
+    char[] Px,
+    u32 x,
+}
+
+packet Reject {
+    int32 Side2,
+    repeat char[3] clOrdID,
+    i32 tag7,
+}
+
+packet Leg {
+}
+
+root packet Quote {
+    string Side2,
+    string lastPx,
+    InSym58 {
+        int16 OrderId,
+        Reject,
+        i8 Qty,
+        i64 venue,
+        f32 Note,
+    },
+    char[] count,
+    zchar[9] price,
+    u16 Qty,
+    match Qty as Body {
+        69 : Leg,
+        48 : Trade,
+        51 : Reject,
+    },
+    u16 Acct @calculatedFrom(""CRC32""),
+}")).
+Eval vm_compute in ("<<<M4508>>>" ++ check (runes_of_ascii "  packet	BodyLength
+	{ 
+repeat	string As	`{ , }`
+
+,@tag(
+
+4294967296  )
+
+    match
+	Pad
+    as
+
+lengthOf
+    { //	t
+	007 : // `tick` ""quote"" 'q'
+
+	i8i8/// triple
+
+, 
+""a\""b""  ://x
+      msg_type ,
+} ,repeat 
+uint32
+
+Z9_ 
+,
+    @tag(
+    00)	// `tick` ""quote"" 'q'
+charz
+    , string 
+	// trailing space 
+  	i8i8	// packet A { u8 x, }
+		@lengthOf( BodyLength)	,
+@calculatedFrom(
+
+""{,}"" )
+    // a // b
+    @leftPad 	 // " ++ [27880; 37322]%N ++ runes_of_ascii "
+    	( 
+)
+leftPad
+
+metadata
+
+,
+
+    //
+    // " ++ [128512]%N ++ runes_of_ascii " emoji
+string i8i8
+
+    ``, uint64 trueish
+@calculatedFrom(""1"" 
+/// triple
+
+// " ++ [27880; 37322]%N ++ runes_of_ascii "
+    )
+	`
+`
+,}
+")).
+Eval vm_compute in ("<<<M1099>>>" ++ check (runes_of_ascii "packet
+    trueish {
+    repeat
+chars
+    ``
+,
+match
+    // trailing space 
+    u128
+as leftPad { """ ++ [233]%N ++ runes_of_ascii "t" ++ [233]%N ++ runes_of_ascii """ : msg_type , } ,	string metadata ,zchar[ 10 ] pack `a\`,u8x {match u128
+as
+    Pad
+{
+    [ ""\n"" , 0 ] : len }
     // @lengthOf(
-    , options1 @lengthOf(
-    T
-)`say ""hi""` , } , @calculatedFrom(
-    ""CRC32"" //
-) uint16 BodyLength  @calculatedFrom( """ ++ [28040; 24687]%N ++ runes_of_ascii """ )
-, } //	t")).
+    , // trailing space 
+char[] Logon	@lengthOf(  Foo ) ,	uint64 metadata ,}
+,
+    u16 repeatCount
+@lengthOf( T
+    // trailing space 
+    ) , @lengthOf(u128 )T
+    @lengthOf(
+    f32a ),int8// `tick` ""quote"" 'q'
+i64_ `" ++ [233]%N ++ runes_of_ascii "`, @lengthOf(uint8x ) uint8 charz @calculatedFrom( """"	) , rootA
+    tag
+    ,
+}
+")).
+Eval vm_compute in ("<<<M3499>>>" ++ check (runes_of_ascii "// top
+root // c0
+packet Frame
+    // c2
+{ // c3a
+  // c3b
+u8
+    // c4
+K // c5
+, // c6a
+  // c6b
+Logon // c7
+first
+    // c8
+,
+    // c9
+match // c10a
+  // c10b
+K as
+    // c12
+Body { // c14
+1 : Logon
+    // c17
+, // c18
+2 : Logout ,
+    // c22
+} , // c24
+} packet // c26
+Logon // c27a
+  // c27b
+{ // c28a
+  // c28b
+string // c29a
+  // c29b
+user
+    // c30
+, // c31a
+  // c31b
+} // c32a
+  // c32b
+packet // c33
+Logout
+    // c34
+{ // c35a
+  // c35b
+u16 // c36a
+  // c36b
+reason ,
+    // c38
+}
+    // c39
+")).
 Eval vm_compute in ("<<<M1087>>>" ++ check (runes_of_ascii "packet x { repeat
 float32 Foo `{ , }` ,
     float64 i8i8	,@lengthOf(chars
@@ -1402,233 +1373,234 @@ char[ 10 // @lengthOf(
 ] i64_  `" ++ [233]%N ++ runes_of_ascii "`
     ,
     }")).
-Eval vm_compute in ("<<<M1017>>>" ++ check (runes_of_ascii "  MetaData// `tick` ""quote"" 'q'
-zchar {packetx calculatedFrom `doc` , zchar[ 3	]
-    Z9_
-, char[ 65535 ]i64_	,
-    u64
-lengthOf `
-`, zchar[
-    // " ++ [128512]%N ++ runes_of_ascii " emoji
-    00
-    ] Pad
-`{ , }` ,
-A lengthOf
-`two words`
-    ,}  MetaData BodyLength
-// c
-// " ++ [128512]%N ++ runes_of_ascii " emoji
-{  char[
-3 // " ++ [27880; 37322]%N ++ runes_of_ascii "
-] u128
-    ,
-// `tick` ""quote"" 'q'
-/// triple
-string MetaDataX,
-u8x // " ++ [128512]%N ++ runes_of_ascii " emoji
-i64_
-`u8 x,`,/// triple
-} MetaData
-chars
-    { string Logon `{ , }`
-    ,char[
-    10] u ,
-len  repeatCount,	} 	 ")).
-Eval vm_compute in ("<<<M981>>>" ++ check (runes_of_ascii "packet
-    BodyLength
-    //x
-    {
-//	t
-//	t
-@lengthOf( tag)
-    // " ++ [27880; 37322]%N ++ runes_of_ascii "
-    len `{ , }`,
-    @calculatedFrom(
-""\n"" )
-    zchar[ 00]
-i64_, repeat
-A{ char rootA , MetaDataX
-    @calculatedFrom(
-    ""\" ++ [233]%N ++ runes_of_ascii """
-    ) , }//x
-, } packet	Packet
-    {	uint64 Packet @calculatedFrom( /// triple
-""" ++ [28040; 24687]%N ++ runes_of_ascii """ )
-,
-char[007
-// " ++ [128512]%N ++ runes_of_ascii " emoji
-// a // b
-]
-x ,float64 uint8x // " ++ [128512]%N ++ runes_of_ascii " emoji
-@calculatedFrom(
-// " ++ [27880; 37322]%N ++ runes_of_ascii "
-// a // b
-""" ++ [233]%N ++ runes_of_ascii "t" ++ [233]%N ++ runes_of_ascii """ )  , } packet
-    float
-    {u128
-    , } // @lengthOf(")).
-Eval vm_compute in ("<<<M1024>>>" ++ check (runes_of_ascii "// @lengthOf(
-packet // trailing space 
-falsey{
-    a1 , //
-int8 chars
-//	t
-//	t
-``,	match Packet //x
-as Z9_ { 42 :	metadata ,	}
-    ,} MetaData pack{}root packet MetaDataX {
-    @lengthOf(
-    //
-    MetaDataX )
-    repeat As{
-    match As as MetaDataX
-{
-[	""CRC32""
-    //x
-    ]:  i64_ ,	[	42 // packet A { u8 x, }
-,// " ++ [27880; 37322]%N ++ runes_of_ascii "
-65535  , 3
-// `tick` ""quote"" 'q'
+Eval vm_compute in ("<<<M379>>>" ++ check (runes_of_ascii "
+root
+packet
+falsey	{ @tag( 0123456789
+    ) @tag( 3 )
+Pad { rootA ,
 //x
-]: // packet A { u8 x, }
-Packet, 0	:
-    Z9_ 10: i8i8 //
-, } , } , }")).
-Eval vm_compute in ("<<<M3828>>>" ++ check (runes_of_ascii "// top
-packet P1 {
-    // c2
-    u8 a,// c5
-}
-
-// c6
-packet P2 {
-    // c9
-    P1,// c11
-}
-
-packet P3 {
-    P2,
-    P1,
-}
-
-// c20
-packet P4 {
-    repeat P3,
-    // c26
-    P2,// c28
-}
-
-// c29
-root packet P5 {
-    // c33
-    P4,// c35a
-    // c35b
-    P3,// c37
-    P1,
-    u8 K,// c42
-    match K as Body {
-        // c47
-        4 : P4,
-        3 : P3,
-        2 : P2,
-        // c59
-        1 : P1,
-    },// c65
-}")).
-Eval vm_compute in ("<<<M934>>>" ++ check (runes_of_ascii "// trailing space 
-packet asx
-{ // @lengthOf(
-} root packet Logon{ char // " ++ [128512]%N ++ runes_of_ascii " emoji
-stringy
-    @calculatedFrom( //	t
-""abc""
-)`say ""hi""` ,
-//	t
-//x
-f64	tag ,// " ++ [27880; 37322]%N ++ runes_of_ascii "
-char[ 0123456789
-    ]
-    packetx , match x	as pack// c
-{ ""\n"" :BodyLength ,
-    // packet A { u8 x, }
-    007 :
-    body/// triple
-, [ 255 ,
-255
-,255  ] //	t
-: A
-    , 0 : o	,[
-    ""abc"" , 1] :crc , [
-""a	b"" ]
-    :charz , } , }
-")).
-Eval vm_compute in ("<<<M893>>>" ++ check (runes_of_ascii "
-packet repeatCount{}packet pack
-{ _x @lengthOf(Pad )	, } options // c
-{ // " ++ [128512]%N ++ runes_of_ascii " emoji
-Foo=
-255 ;
-    // trailing space 
-    }packet tag { @tag( 0123456789 ) @calculatedFrom(// `tick` ""quote"" 'q'
-""a\""b"" )uint32 a1 ,repeat string_ {  zchar[ 255 ]T , // @lengthOf(
-},
-    @rightPad(
-) roots@lengthOf( trueish ) `// not a comment` ,	float // c
-, uint8x lengthOf	`two words`,}
-")).
-Eval vm_compute in ("<<<M1048>>>" ++ check (runes_of_ascii "
-packet i64_	{
-    @rightPad(	'\x00' ) char[] zchar, repeat string stringy ,repeat stringy // @lengthOf(
-`{ , }`  , MetaDataX metadata , char[
-    42 // c
-]calculatedFrom `doc`
-    ,zchar[ 4294967296	] repeatCount , }	MetaData msg_type { } packet
-body
-{ zchar[ 00] string_ @calculatedFrom( ""\" ++ [233]%N ++ runes_of_ascii """
-    ) `two words`
-, string_ @lengthOf( A ) `line1
-line2`
-,
-    }")).
-Eval vm_compute in ("<<<M1253>>>" ++ check (runes_of_ascii "// @lengthOf(
-options { u128  = uint32
-}  packet	T {// packet A { u8 x, }
-}
-options {} MetaData // " ++ [27880; 37322]%N ++ runes_of_ascii "
-pack// " ++ [128512]%N ++ runes_of_ascii " emoji
-{
-    }packet _x
-{	@tag( 1) char[ 00
-    ] x_y_z
-    @calculatedFrom( ""\" ++ [233]%N ++ runes_of_ascii """ ) ,
-    f32 a1 , @rightPad
-(  '0'	) zchar[ 00
-]  u
-    `u8 x,` ,@lengthOf(msg_type )x  {metadata , } ,
-    // packet A { u8 x, }
-    char[]
-    float , }")).
-Eval vm_compute in ("<<<M58>>>" ++ check (runes_of_ascii "
-MetaData// `tick` ""quote"" 'q'
-asx
-{
-    // packet A { u8 x, }
-    char
+// a // b
+x { repeat int {
+// " ++ [128512]%N ++ runes_of_ascii " emoji
 // @lengthOf(
+match f32a as crc
+{
+[ """ ++ [128512]%N ++ runes_of_ascii """ ,""packet""] : metadata ,//	t
+[ 42,  ""abc"" , 00
+    ,""a\\""
+]
+    // a // b
+    ://x
+metadata ,
+[""a\""b""
+] : Header , ""\n""
+: asx } , } ,
+    x_y_z @calculatedFrom(""1""// " ++ [128512]%N ++ runes_of_ascii " emoji
+),
+zchar[ 42
+    ]
+    string_ `` // packet A { u8 x, }
+,	matchKey	pack ,} ,
+}
+, @lengthOf( Logon )
+@leftPad
+    ('\x00' )
+As u8x , }")).
+Eval vm_compute in ("<<<M636>>>" ++ check (runes_of_ascii "options { }// " ++ [27880; 37322]%N ++ runes_of_ascii "
+root
+    packet leftPad {match T as u8x{ // trailing space 
+4294967296
+// packet A { u8 x, }
 //x
-Z9_ , } options{ Pad
-= '0' /// triple
-} options { trueish = ""it's"" matchKey =
-    false
-    ; T = float32 ;
-    /// triple
-    len= ' ' ; string_
-=
-    i16 ; } root// `tick` ""quote"" 'q'
-packet f32a{char[]
-    // trailing space 
-    u8x
-    , }")).
+: Logon, ""1"" :i8i8 ,
+0123456789 : tag, ""a\""b"" // @lengthOf(
+: //x
+options1 , 4294967296  : T
+    }
+    , repeat matchKey {
+repeat string rootA ,  repeat
+    // @lengthOf(
+    int64
+    zchar `
+` , } , i32 x_y_z ,
+zchar[ 007 ] packetx `it's`,
+// a // b
+// `tick` ""quote"" 'q'
+repeat
+    // " ++ [128512]%N ++ runes_of_ascii " emoji
+    zchar[	255 ] falsey , } // " ++ [27880; 37322]%N)).
+Eval vm_compute in ("<<<M455>>>" ++ check (runes_of_ascii "root packet
+// " ++ [27880; 37322]%N ++ runes_of_ascii "
+// c
+Pad { @leftPad ( '\x00') @leftPad ( ' ' )
+    calculatedFrom
+    // packet A { u8 x, }
+    rootA `it's` , T`line1
+line2` ,
+    match pack as  int{
+    //
+    0: x_y_z [""1"", 0 ,10
+// c
+//
+,
+""" ++ [128512]%N ++ runes_of_ascii """
+,
+    65535 ,""CRC32"" ,
+7] : string_ , [ 255  , ""abc""	, ""CRC32"", ""abc""
+    ]: i8i8 10 :
+Z9_
+    , // " ++ [128512]%N ++ runes_of_ascii " emoji
+}
+    ,
+    } options { }	MetaData T { //x
+u uint8x,string_ _x , uint16 body`doc`
+, uint32 tag `a\` , }")).
+Eval vm_compute in ("<<<M4130>>>" ++ check (runes_of_ascii "  options	{  charz=char[	0123456789 
+] zchar  =
+float32
+	;
+    }
+packet
+As {
+
+x_y_z
+	crc
+
+    `{ , }` 
+, 
+}root
+packet
+body	{ @lengthOf(
+
+    Logon )
+
+    Header
+
+    repeatCount	`it's`
+,
+char[	/// triple
+	255] 
+u128  @lengthOf(
+uint8x 
+        // " ++ [128512]%N ++ runes_of_ascii " emoji
+      // a // b
+  )  ,
+    // a // b
+repeat
+
+    repeatCount`doc` //x
+, @lengthOf(packetx
+
+    )  Z9_
+	x_y_z 
+    // " ++ [27880; 37322]%N ++ runes_of_ascii "
+    `" ++ [28040; 24687; 31867; 22411]%N ++ runes_of_ascii "`
+	,	}
+")).
+Eval vm_compute in ("<<<M4386>>>" ++ check (runes_of_ascii "root packet i64_ {
+    @leftPad('\x00')
+    match roots as A {
+        [""\n"", 10, 00] : asx,
+    },
+    zchar[1] body @calculatedFrom(""abc"") `line1
+        line2`,
+    int8 Z9_,
+    u {
+        falsey zchar,
+        repeat uint16 a1,
+    },
+    repeat uint16 i64_ `crlf
+        line`,
+    pack `crlf
+        line`,
+    roots,
+    match u128 as o {
+        00 : Header,
+    },
+    repeat u A,
+}")).
+Eval vm_compute in ("<<<M1325>>>" ++ check (runes_of_ascii "
+MetaData
+MetaDataX { zchar[//
+42 ] charz`` ,Packet
+    stringy	`two words` , u32 // a // b
+uint8x
+    // packet A { u8 x, }
+    ,int chars`
+` ,	f32 metadata ,
+    char[]
+    string_
+    ,} packet roots
+{ char[
+    7
+    ]
+    leftPad
+    ,	@tag( 1 )uint8x@calculatedFrom( ""`tick`"" ) ,@lengthOf(x )lengthOf { repeat
+    // " ++ [27880; 37322]%N ++ runes_of_ascii "
+    uint8x  u, char
+zchar , zchar[ 10
+] tag
+, }
+,}")).
+Eval vm_compute in ("<<<M580>>>" ++ check (runes_of_ascii "packet // `tick` ""quote"" 'q'
+i8i8	{ } packet
+    //	t
+    i64_// packet A { u8 x, }
+{repeat int8 crc `
+`
+    // a // b
+    , // a // b
+As,
+    }
+MetaData
+    roots { roots roots `" ++ [233]%N ++ runes_of_ascii "` ,
+    }  packet tag
+    { @calculatedFrom( """ ++ [233]%N ++ runes_of_ascii "t" ++ [233]%N ++ runes_of_ascii """  ) @lengthOf( Packet
+) repeat float64
+asx`two words`
+,  BodyLength
+@calculatedFrom(
+// packet A { u8 x, }
+// c
+""a	b""	), }
+// c
+")).
+Eval vm_compute in ("<<<M668>>>" ++ check (runes_of_ascii "root packet options1 { repeat
+    Packet { match // `tick` ""quote"" 'q'
+u8x as  metadata { ""packet"" : packetx
+,
+[
+""// no comment"" ,
+    // packet A { u8 x, }
+    ""a\\"" ]
+    : uint8x 1 // c
+: Foo , 0123456789 :	falsey
+, ""abc"":
+    x_y_z
+    , },}
+,
+    @rightPad (// a // b
+' ' )
+    f32a crc , @tag( 3 ) repeat char[0 ] pack // c
+`say ""hi""`, }
+")).
+Eval vm_compute in ("<<<M457>>>" ++ check (runes_of_ascii "root packet float  { char[]
+    metadata`two words` ,match u128 as leftPad // packet A { u8 x, }
+{""packet"" // c
+: f32a , }
+    , i64 MetaDataX @lengthOf(options1
+) ,
+    zchar[ 00 ]
+// @lengthOf(
+//
+Logon , @lengthOf( falsey) char[00] i64_ ,
+    @lengthOf( Pad ) u32
+Pad	`tab	here`
+, uint8 metadata
+    ,// packet A { u8 x, }
+}
+")).
 Eval vm_compute in ("<<<M593>>>" ++ check (runes_of_ascii "
 options {trueish
     = uint64 lengthOf
@@ -1647,64 +1619,13 @@ match falsey as BodyLength {
 10  : u8x , }, Z9_ len , msg_type `// not a comment` ,
 }
 ")).
-Eval vm_compute in ("<<<M329>>>" ++ check (runes_of_ascii "
-options{MetaDataX =
-    char }packet packetx {match // packet A { u8 x, }
-string_
-    as trueish {""a\""b"" : crc // trailing space 
-,
-1 : calculatedFrom [
-1 ]  : u8x	, }
-, }options {}
-    MetaData Z9_
-    // " ++ [128512]%N ++ runes_of_ascii " emoji
-    {
-    string MetaDataX `` // trailing space 
-, }options{ o= '\x00';// trailing space 
-}")).
-Eval vm_compute in ("<<<M1435>>>" ++ check (runes_of_ascii "root packet Foo // " ++ [128512]%N ++ runes_of_ascii " emoji
-{ } options options {
-    // a // b
-    tag // `tick` ""quote"" 'q'
-= //	t
-""""
-    ; u8x = zchar[0  ] }
-MetaData
-    int {zchar[ 10]
-lengthOf	`` , i64 u8x`// not a comment` ,MetaDataX pack// `tick` ""quote"" 'q'
-`crlf
-line`
-, Logon charz `crlf
-line`
-    ,
-    // a // b
-    }
-")).
-Eval vm_compute in ("<<<M1457>>>" ++ check (runes_of_ascii "root packet Foo // " ++ [128512]%N ++ runes_of_ascii " emoji
-{ } options {
-    // a // b
-    tag // `tick` ""quote"" 'q'
-= //	t
-false
-    ; u8x = zchar[0  ] }
-MetaData
-    int {zchar[ 10]
-lengthOf	`` , i64 u8x`// not a comment` ,MetaDataX pack// `tick` ""quote"" 'q'
-`crlf
-line`
-, Logon charz `crlf
-line`
-    ,
-    // a // b
-    }
-")).
-Eval vm_compute in ("<<<M1608>>>" ++ check (runes_of_ascii "root packet Foo // " ++ [128512]%N ++ runes_of_ascii " emoji
+Eval vm_compute in ("<<<M1467>>>" ++ check (runes_of_ascii "root packet Foo // " ++ [128512]%N ++ runes_of_ascii " emoji
 { } options {
     // a // b
     tag // `tick` ""quote"" 'q'
 = //	t
 """"
-    ; u8x = ? zchar[0  ] }
+    ; @calculatedFrom( = zchar[0  ] }
 MetaData
     int {zchar[ 10]
 lengthOf	`` , i64 u8x`// not a comment` ,MetaDataX pack// `tick` ""quote"" 'q'
@@ -1716,43 +1637,7 @@ line`
     // a // b
     }
 ")).
-Eval vm_compute in ("<<<M1461>>>" ++ check (runes_of_ascii "root packet Foo // " ++ [128512]%N ++ runes_of_ascii " emoji
-{ } options {
-    // a // b
-    tag // `tick` ""quote"" 'q'
-= //	t
-""""
-    u8x ; = zchar[0  ] }
-MetaData
-    int {zchar[ 10]
-lengthOf	`` , i64 u8x`// not a comment` ,MetaDataX pack// `tick` ""quote"" 'q'
-`crlf
-line`
-, Logon charz `crlf
-line`
-    ,
-    // a // b
-    }
-")).
-Eval vm_compute in ("<<<M1429>>>" ++ check (runes_of_ascii "root packet Foo // " ++ [128512]%N ++ runes_of_ascii " emoji
-{  options {
-    // a // b
-    tag // `tick` ""quote"" 'q'
-= //	t
-""""
-    ; u8x = zchar[0  ] }
-MetaData
-    int {zchar[ 10]
-lengthOf	`` , i64 u8x`// not a comment` ,MetaDataX pack// `tick` ""quote"" 'q'
-`crlf
-line`
-, Logon charz `crlf
-line`
-    ,
-    // a // b
-    }
-")).
-Eval vm_compute in ("<<<M1499>>>" ++ check (runes_of_ascii "root packet Foo // " ++ [128512]%N ++ runes_of_ascii " emoji
+Eval vm_compute in ("<<<M1411>>>" ++ check (runes_of_ascii "root root packet Foo // " ++ [128512]%N ++ runes_of_ascii " emoji
 { } options {
     // a // b
     tag // `tick` ""quote"" 'q'
@@ -1760,7 +1645,7 @@ Eval vm_compute in ("<<<M1499>>>" ++ check (runes_of_ascii "root packet Foo // "
 """"
     ; u8x = zchar[0  ] }
 MetaData
-     {zchar[ 10]
+    int {zchar[ 10]
 lengthOf	`` , i64 u8x`// not a comment` ,MetaDataX pack// `tick` ""quote"" 'q'
 `crlf
 line`
@@ -1770,746 +1655,825 @@ line`
     // a // b
     }
 ")).
-Eval vm_compute in ("<<<M3585>>>" ++ check (runes_of_ascii "  packet lengthOf { repeat
-
-    zchar[	10	]x	, @tag(	0123456789
-
-) 
-char[	3
-
-] charz ,
-
-    }
-root
-packet 
-i64_
-
-{ 
-i64_	`say ""hi""`
-
-,
-string Logon
-	`tab	here` , uint64 
-      //x
-  	//	t
-  pack@calculatedFrom(
-
-""\" ++ [233]%N ++ runes_of_ascii """
-)
-    `two words`,
-
-    } options
-{ uint8x
-
-    =
-'0' ;
-}
-")).
-Eval vm_compute in ("<<<M988>>>" ++ check (runes_of_ascii "root packet pack { zchar[00	] falsey
-// trailing space 
-// " ++ [27880; 37322]%N ++ runes_of_ascii "
-, // " ++ [27880; 37322]%N ++ runes_of_ascii "
-leftPad, uint64 stringy @calculatedFrom(""\n"") // " ++ [27880; 37322]%N ++ runes_of_ascii "
-`" ++ [28040; 24687; 31867; 22411]%N ++ runes_of_ascii "` ,}
-root packet
-    pack {@tag(
-    65535
-    // " ++ [27880; 37322]%N ++ runes_of_ascii "
-    ) zchar[  007//x
-]
-    uint8x `crlf
-line`
-, }
-options { Header
-    =//	t
-""CRC32"" ;
-}")).
-Eval vm_compute in ("<<<M4120>>>" ++ check (runes_of_ascii "packet P1 {
-    u8 a,
-}
-
-packet P2 {
-    P1,
-}
-
-packet P3 {
-    P2,
-    P1,
-}
-
-packet P4 {
-    repeat P3,
-    P2,
-}
-
-root packet P5 {
-    P4,
-    P3,
-    P1,
-    u8 K,
-    match K as Body {
-        4 : P4,
-        3 : P3,
-        2 : P2,
-        1 : P1,
-    },
-}")).
-Eval vm_compute in ("<<<M344>>>" ++ check (runes_of_ascii "packet
-chars {repeat float32  x_y_z
-    , @tag( 0123456789
-    )	char[
-255	] rootA `{ , }` , } options  { x= zchar[
-    00
-] ;
-Packet= '\x00' ; }
-    options{Z9_ =// packet A { u8 x, }
-""CRC32"" ;
-    As = // `tick` ""quote"" 'q'
-uint32 ; } // a // b")).
-Eval vm_compute in ("<<<M297>>>" ++ check (runes_of_ascii "
-packet As
-{
-} MetaData Logon { i16 falsey
-`a\` // `tick` ""quote"" 'q'
-, } MetaData T { f64 uint8x `u8 x,` , // " ++ [128512]%N ++ runes_of_ascii " emoji
-char[	00 // @lengthOf(
-] T , char[
-    0
-    ]
-Pad
+Eval vm_compute in ("<<<M627>>>" ++ check (runes_of_ascii "packet Foo {asx {falsey
+    ,  }
+, @calculatedFrom(
+// " ++ [128512]%N ++ runes_of_ascii " emoji
+/// triple
+""CRC32"" ) repeat char[ 007 ] rootA ,
+A , repeat// packet A { u8 x, }
+i8i8 pack
+`two words`
 // c
-// c
-`crlf
-line` , char[]
-    f32a ,
-char[] asx
-    , } //	t")).
-Eval vm_compute in ("<<<M581>>>" ++ check (runes_of_ascii "/// triple
-MetaData zchar {As
-As ,
-    // a // b
-    int32 crc , trueish string_ `two words` , } // `tick` ""quote"" 'q'
-options { rootA =	'0' // " ++ [128512]%N ++ runes_of_ascii " emoji
-string_
-    =10	; }
-options //	t
-{ // a // b
-tag = 0
-;  i64_
-=	0
-;}
-// " ++ [27880; 37322]%N ++ runes_of_ascii "
-")).
-Eval vm_compute in ("<<<M695>>>" ++ check (runes_of_ascii "  packet
-    int // trailing space 
-{ } // a // b
-root packet uint8x {
-repeat
-zchar[42
-    ]asx`it's` , @calculatedFrom(""CRC32"" ) float64  options1
-    `{ , }`, } options { string_// trailing space 
-=
-    char[] ; } // c")).
-Eval vm_compute in ("<<<M4175>>>" ++ check (runes_of_ascii "
-root
-    packet
-    packetx
-{ trueish @lengthOf( repeatCount )	,	@lengthOf(
-
-    u 
-)	// `tick` ""quote"" 'q'
-    	Packet
-u	// trailing space 
-    `" ++ [233]%N ++ runes_of_ascii "` ,
-}options{
-leftPad
-=0123456789;  u=
-    65535 ; }	// " ++ [128512]%N ++ runes_of_ascii " emoji
- 
-")).
-Eval vm_compute in ("<<<M2366>>>" ++ check (runes_of_ascii "MetaData Packet { }packet	asx  { @lengthOf( asx) falsey`crlf
-line`
-,
-    }
-    packet x	{uint32// @lengthOf(
-rootA	,u32 options1 `say ""hi""` , @tag( 7
-    )// packet A { u8 x, }
-msg_type @lengthOf(
-stringy	)	, , }
-
-")).
-Eval vm_compute in ("<<<M2252>>>" ++ check (runes_of_ascii "MetaData Packet { }packet	asx  { @lengthOf( )asx falsey`crlf
-line`
-,
-    }
-    packet x	{uint32// @lengthOf(
-rootA	,u32 options1 `say ""hi""` , @tag( 7
-    )// packet A { u8 x, }
-msg_type @lengthOf(
-stringy	)	, }
-
-")).
-Eval vm_compute in ("<<<M2270>>>" ++ check (runes_of_ascii "MetaData Packet { }packet	asx  { @lengthOf( asx) falsey`crlf
-line`
-
-    }
-    packet x	{uint32// @lengthOf(
-rootA	,u32 options1 `say ""hi""` , @tag( 7
-    )// packet A { u8 x, }
-msg_type @lengthOf(
-stringy	)	, }
-
-")).
-Eval vm_compute in ("<<<M4308>>>" ++ check (runes_of_ascii "root packet Foo {
-}
-
-options {
-    // a // b
-    tag = """";
-    u8x = zchar[0]
-}
-
-MetaData int {
-    zchar[10] lengthOf ``,
-    i64 u8x `// not a comment`,
-    MetaDataX pack,
-    Logon charz `crlf
-    line`,
-}")).
-Eval vm_compute in ("<<<M3795>>>" ++ check (runes_of_ascii "packet a1 {
-    @calculatedFrom(""// no comment"")
-    repeat f32a {
-        body `// not a comment`,
-    },
-    o @calculatedFrom(""a	b"") `line1
-        line2`,
-    @calculatedFrom(""`tick`"")
-    repeat tag,
-}")).
-Eval vm_compute in ("<<<M936>>>" ++ check (runes_of_ascii "packet As {	_x  @lengthOf( f32a)
-    `tab	here`
-    , match chars as chars
-// " ++ [27880; 37322]%N ++ runes_of_ascii "
-//	t
-{ """ ++ [233]%N ++ runes_of_ascii "t" ++ [233]%N ++ runes_of_ascii """ :stringy , ""1"" :
-options1
-    , 255: repeatCount, ""CRC32""
-:float , },
-Logon int `` , uint8x metadata , }
-")).
-Eval vm_compute in ("<<<M315>>>" ++ check (runes_of_ascii "packet// " ++ [27880; 37322]%N ++ runes_of_ascii "
-trueish { match f32a
-as stringy	{ """ ++ [28040; 24687]%N ++ runes_of_ascii """ : _x ,
-1 : //x
-stringy
-    ,
-    65535 :u8x 65535: // trailing space 
-asx
-// packet A { u8 x, }
-// c
-,  }
-    // packet A { u8 x, }
-    , }")).
-Eval vm_compute in ("<<<M1231>>>" ++ check (runes_of_ascii "packet
-    T { @leftPad
-( ' ' )
-    // " ++ [27880; 37322]%N ++ runes_of_ascii "
-    int32
-// " ++ [27880; 37322]%N ++ runes_of_ascii "
-// @lengthOf(
-packetx
-`" ++ [233]%N ++ runes_of_ascii "`
-    ,uint16 MetaDataX
-@lengthOf( asx
-// packet A { u8 x, }
 // a // b
-)// `tick` ""quote"" 'q'
 ,
-    }")).
-Eval vm_compute in ("<<<M4202>>>" ++ check (runes_of_ascii "//
-packet u {
+} options {
+    }packet uint8x // @lengthOf(
+{ string Foo
+@lengthOf( u
+    ) `u8 x,`  ,  i32 BodyLength ,
 }
 
-packet u8x {
+")).
+Eval vm_compute in ("<<<M1521>>>" ++ check (runes_of_ascii "root packet Foo // " ++ [128512]%N ++ runes_of_ascii " emoji
+{ } options {
+    // a // b
+    tag // `tick` ""quote"" 'q'
+= //	t
+""""
+    ; u8x = zchar[0  ] }
+MetaData
+    int {zchar[ 10 lengthOf
+]	`` , i64 u8x`// not a comment` ,MetaDataX pack// `tick` ""quote"" 'q'
+`crlf
+line`
+, Logon charz `crlf
+line`
+    ,
+    // a // b
+    }
+")).
+Eval vm_compute in ("<<<M1531>>>" ++ check (runes_of_ascii "root packet Foo // " ++ [128512]%N ++ runes_of_ascii " emoji
+{ } options {
+    // a // b
+    tag // `tick` ""quote"" 'q'
+= //	t
+""""
+    ; u8x = zchar[0  ] }
+MetaData
+    int {zchar[ 10]
+lengthOf	, `` i64 u8x`// not a comment` ,MetaDataX pack// `tick` ""quote"" 'q'
+`crlf
+line`
+, Logon charz `crlf
+line`
+    ,
+    // a // b
+    }
+")).
+Eval vm_compute in ("<<<M1532>>>" ++ check (runes_of_ascii "root packet Foo // " ++ [128512]%N ++ runes_of_ascii " emoji
+{ } options {
+    // a // b
+    tag // `tick` ""quote"" 'q'
+= //	t
+""""
+    ; u8x = zchar[0  ] }
+MetaData
+    int {zchar[ 10]
+lengthOf	} , i64 u8x`// not a comment` ,MetaDataX pack// `tick` ""quote"" 'q'
+`crlf
+line`
+, Logon charz `crlf
+line`
+    ,
+    // a // b
+    }
+")).
+Eval vm_compute in ("<<<M1527>>>" ++ check (runes_of_ascii "root packet Foo // " ++ [128512]%N ++ runes_of_ascii " emoji
+{ } options {
+    // a // b
+    tag // `tick` ""quote"" 'q'
+= //	t
+""""
+    ; u8x = zchar[0  ] }
+MetaData
+    int {zchar[ 10]
+int8	`` , i64 u8x`// not a comment` ,MetaDataX pack// `tick` ""quote"" 'q'
+`crlf
+line`
+, Logon charz `crlf
+line`
+    ,
+    // a // b
+    }
+")).
+Eval vm_compute in ("<<<M1552>>>" ++ check (runes_of_ascii "root packet Foo // " ++ [128512]%N ++ runes_of_ascii " emoji
+{ } options {
+    // a // b
+    tag // `tick` ""quote"" 'q'
+= //	t
+""""
+    ; u8x = zchar[0  ] }
+MetaData
+    int {zchar[ 10]
+lengthOf	`` , i64 u8x char[] ,MetaDataX pack// `tick` ""quote"" 'q'
+`crlf
+line`
+, Logon charz `crlf
+line`
+    ,
+    // a // b
+    }
+")).
+Eval vm_compute in ("<<<M3562>>>" ++ check (runes_of_ascii "options
+    { LittleEndian= true
+
+    ;
+    }
+
+packet Logon
+	{	u8
+	x	, string user	,
+
+    }
+	packet
+Logout {
+u16 reason ,
+
 }
 
-options {
-    Logon = string;
-    calculatedFrom = '\x00';
-    BodyLength = 1;//	t
-    _x = ""CRC32"";
+packet
+	Empty {
 }
 
-root packet Z9_ {
-}
+root
+	packet
+Frame { u16	MsgType
 
-MetaData chars {
-}")).
-Eval vm_compute in ("<<<M3770>>>" ++ check (runes_of_ascii "
+    ,
+@lengthOf(
+Body) u8
+
+    BodyLen ,
+
+u8 flags	,
+Logon Body ,u32
+
+trailer ,}")).
+Eval vm_compute in ("<<<M765>>>" ++ check (runes_of_ascii "
+packet
+    msg_type // trailing space 
+{ match leftPad as float { 3 // packet A { u8 x, }
+: repeatCount// trailing space 
+,
+[ 0123456789 ,
+    // a // b
+    3
+    ,10	,65535 , // c
+1 ] : Header	, ""{,}"" : packetx	,
+    0 // @lengthOf(
+: _x//	t
+,  } , }
+")).
+Eval vm_compute in ("<<<M3553>>>" ++ check (runes_of_ascii "
+packet Sub
+
+    {u8  a , u32
+
+SubSum@calculatedFrom(  ""CRC16"" )
+	, }
+root packet
+    Frame 
+{ u16  MsgType
+,u16
+
+    BodyLen@lengthOf(
+    Body)
+,Sub Body ,
+    string note, 
+u32 
+Checksum
+    @calculatedFrom(
+""CRC16""
+	)
+,
+	u8
+
+tail ,
+    }
+")).
+Eval vm_compute in ("<<<M1350>>>" ++ check (runes_of_ascii "packet charz
+    //	t
+    {
+@tag( 7 )@leftPad ( '0' ) @rightPad( '0'
+)repeat Logon
+, }  options // trailing space 
+{}
+    options {} MetaData  roots { float a1 `" ++ [233]%N ++ runes_of_ascii "`
+    // " ++ [27880; 37322]%N ++ runes_of_ascii "
+    ,  zchar[
+255 ]  calculatedFrom , u32 // " ++ [27880; 37322]%N ++ runes_of_ascii "
+Packet ,} //x")).
+Eval vm_compute in ("<<<M4466>>>" ++ check (runes_of_ascii "
 
   packet
-A
 
-    {Inner {
+pack{  @calculatedFrom( 
+""CRC32"")
 
-    match	k
+i8i8{
+	MetaDataX
 
-    as
-n
-
-{[ 1
+    @lengthOf(x  
+  //x
+	// packet A { u8 x, }
+	) ,char	As  @lengthOf(	len) ,
+    // " ++ [128512]%N ++ runes_of_ascii " emoji
+      //x
+  	chars metadata
+`say ""hi""`
+,  char[ 0]
+int,
+    } ,	}")).
+Eval vm_compute in ("<<<M2217>>>" ++ check (runes_of_ascii "MetaData Packet Packet { }packet	asx  { @lengthOf( asx) falsey`crlf
+line`
 ,
+    }
+    packet x	{uint32// @lengthOf(
+rootA	,u32 options1 `say ""hi""` , @tag( 7
+    )// packet A { u8 x, }
+msg_type @lengthOf(
+stringy	)	, }
 
-    22	, 
-007
+")).
+Eval vm_compute in ("<<<M3954>>>" ++ check (runes_of_ascii "options
+{ FixedStringPadChar =
+	'0'  ; } packet
 
+Q 
+{ zchar[ 4
+    ] z
+	,@rightPad  (	'\x00' ) char[
+
+3
+    ]  n ,
+	char[5 ]
+	d , }
+	root packet
+
+    R{
+Q
+    ,
+
+    zchar[
+8
+    ] 
+top 
+, repeat
+zchar[2
+]zs, }")).
+Eval vm_compute in ("<<<M2383>>>" ++ check (runes_of_ascii "MetaData Packet { }packet	asx  { @lengthOf( asx) falsey`crlf
+line`
 ,
+    " ++ [233]%N ++ runes_of_ascii "}
+    packet x	{uint32// @lengthOf(
+rootA	,u32 options1 `say ""hi""` , @tag( 7
+    )// packet A { u8 x, }
+msg_type @lengthOf(
+stringy	)	, }
 
-4
-,5
-,66,
-
-7
-
-    ,
-    8
-
-    ,
-	9 ,10
-	, 11
-
-, 12
-
-    ]
-:B , 
-} , },  }
 ")).
-Eval vm_compute in ("<<<M1237>>>" ++ check (runes_of_ascii "
-MetaData
-    int {
-    string Z9_  `say ""hi""`, char[]// @lengthOf(
-uint8x // packet A { u8 x, }
-`// not a comment` , char[]Foo , trueish T , // " ++ [27880; 37322]%N ++ runes_of_ascii "
-asx asx , }
+Eval vm_compute in ("<<<M2327>>>" ++ check (runes_of_ascii "MetaData Packet { }packet	asx  { @lengthOf( asx) falsey`crlf
+line`
+,
+    }
+    packet x	{uint32// @lengthOf(
+rootA	,u32 options1 `say ""hi""` @tag( , 7
+    )// packet A { u8 x, }
+msg_type @lengthOf(
+stringy	)	, }
+
 ")).
-Eval vm_compute in ("<<<M683>>>" ++ check (runes_of_ascii "root
-    packet
-    Packet// packet A { u8 x, }
-{leftPad
-    As , char[]	string_ ,
-} MetaData
-x {
-a1 u128 `u8 x,`	,
-// a // b
-// packet A { u8 x, }
+Eval vm_compute in ("<<<M3488>>>" ++ check (runes_of_ascii "
+
+  options	{	FixedStringPadChar
+
+    = '0';
+	}packet
+    Q
+{  zchar[
+
+4	]	z
+
+    , @rightPad
+(
+'\x00'
+
+)
+
+char[3] n,char[ 
+5  ]
+
+d
+	, }root	packet
+R
+    { Q
+    ,
+zchar[
+8  ]top
+	,	repeat 
+zchar[
+2 
+] zs,
+	}")).
+Eval vm_compute in ("<<<M2369>>>" ++ check (runes_of_ascii "MetaData Packet { }packet	asx  { @lengthOf( asx) falsey`crlf
+line`
+,
+    }
+    packet x	{uint32// @lengthOf(
+rootA	,u32 options1 `say ""hi""` , @tag( 7
+    )// packet A { u8 x, }
+msg_type @lengthOf(
+stringy	)")).
+Eval vm_compute in ("<<<M3944>>>" ++ check (runes_of_ascii "options {
+    packetx = ' '
+    chars = ""a\""b"";
+    BodyLength = false
 }
 
-")).
-Eval vm_compute in ("<<<M186>>>" ++ check (runes_of_ascii "//	t
-MetaData asx { char[]asx , x
-_x , } root packet lengthOf{ @tag(
-10
-)@rightPad ( '0' )
-    @rightPad('0' ) // " ++ [128512]%N ++ runes_of_ascii " emoji
-u32
-BodyLength, //	t
+options {
 }
-")).
-Eval vm_compute in ("<<<M516>>>" ++ check (runes_of_ascii "packet i8i8
-// packet A { u8 x, }
-//x
-{@rightPad
-    () msg_type{ rootA
-len , }
+
+// " ++ [128512]%N ++ runes_of_ascii " emoji
+// c
+root packet A {
+    @rightPad('0')
+    crc {
+        i16 calculatedFrom,
+    },
+    repeat i8 Foo,
+}")).
+Eval vm_compute in ("<<<M67>>>" ++ check (runes_of_ascii "MetaData Pad { Z9_
+    // c
+    pack ,u8 asx
+    , i32
+    MetaDataX , int8 // `tick` ""quote"" 'q'
+x_y_z ,u128 f32a, calculatedFrom calculatedFrom
+    `say ""hi""`  ,
     // trailing space 
-    , } root packet  options1
-    {  }
+    }
 ")).
-Eval vm_compute in ("<<<M3571>>>" ++ check (runes_of_ascii "packet
+Eval vm_compute in ("<<<M3949>>>" ++ check (runes_of_ascii "packet falsey {
+}
 
-A {
-match
+MetaData x {
+    body len,
+    lengthOf trueish `two words`,
+    zchar[65535] Header `it's`,
+    packetx uint8x `
+    `,
+    int32 As,
+}
+
+// " ++ [128512]%N ++ runes_of_ascii " emoji
+root packet i8i8 {
+}")).
+Eval vm_compute in ("<<<M1197>>>" ++ check (runes_of_ascii "
+options  { Z9_ =
+""\n"" ;calculatedFrom = ""packet"" ;zchar
+= ' ' ; } MetaData
+    asx { repeatCount	uint8x  `two words`
+    ,  a1 A `u8 x,`,
+Packet Z9_`crlf
+line`
+, } options { }
+")).
+Eval vm_compute in ("<<<M958>>>" ++ check (runes_of_ascii "packet trueish { @calculatedFrom( """ ++ [128512]%N ++ runes_of_ascii """ ) char[42 ] leftPad , pack ,@tag(	10	) packetx BodyLength , }	options { metadata
+    = ""it's""charz= u64; // " ++ [128512]%N ++ runes_of_ascii " emoji
+metadata= ' '
+;}
+")).
+Eval vm_compute in ("<<<M1131>>>" ++ check (runes_of_ascii "packet matchKey
+    {@calculatedFrom(	""" ++ [28040; 24687]%N ++ runes_of_ascii """
+    ) // " ++ [128512]%N ++ runes_of_ascii " emoji
+match  tag/// triple
+as// c
+Foo {
+[ ""a\""b""	, 255 //x
+]:trueish
+// c
+// " ++ [27880; 37322]%N ++ runes_of_ascii "
+,  } , // a // b
+}options{
+}
+")).
+Eval vm_compute in ("<<<M447>>>" ++ check (runes_of_ascii "root  packet msg_type
+// " ++ [27880; 37322]%N ++ runes_of_ascii "
+//	t
+{ string lengthOf `a\`
+,
+    @tag( 65535) rootA calculatedFrom , char[]	crc `{ , }`  ,
+zchar[
+// c
+//	t
+65535 ]msg_type , }
+")).
+Eval vm_compute in ("<<<M4379>>>" ++ check (runes_of_ascii "MetaData i64_ {
+    float32 BodyLength,
+    int8 tag `two words`,
+    roots a1 `crlf
+    line`,
+}
+
+MetaData f32a {
+    int64 o `tab	here`,
+    i32 A,
+}")).
+Eval vm_compute in ("<<<M4274>>>" ++ check (runes_of_ascii "// top
+packet calculatedFrom {
+    // c2
+    @tag(4294967296)
+    // c5
+    u msg_type,// c8
+    char[3] crc @lengthOf(len) `u8 x,`,// c17
+}// c18")).
+Eval vm_compute in ("<<<M4019>>>" ++ check (runes_of_ascii "packet 
+A{ match
 
 k
+as	n { [1, 
+22 
+,  ""c c"" ,
 
-as
-    n {[
+    4,
 
-1,
-""bb"" ,  007 
-, ""d"" ,
 5
+    , 
+""f""  ,
 
-, ""f""
-,7
+7  , 8,""i""
+    ,  10
 
-,
-""h""
-
-    ,
-	9
-	,
-    ""j""
-	,
-11
-,""l""]	:B 
-,
-	2
-:  C} ,  }
-")).
-Eval vm_compute in ("<<<M3662>>>" ++ check (runes_of_ascii "
-packet
-
-    A
-	{
-match k
-    as  n {[  ""a""
-, ""bb"",
-	007,
-""d""
-,""e""
-, 
-66
-,
-
-""g""	, ""h"" ,
-    9 
-]
-
-    : 
-B 2
+    ,	11 
+]:
+	B
+,  2
 :
-    C 
-}
-, 
-}
+	C
+
+    } ,
+	}
+
 ")).
-Eval vm_compute in ("<<<M1734>>>" ++ check (runes_of_ascii "root packet /// triple
-rootA {	i32
+Eval vm_compute in ("<<<M4075>>>" ++ check (runes_of_ascii "options
+
+{ Header
+
+=  4294967296
+
+    charz=
+    true Pad 
+=
+
+'\x00'
+charz =
+// `tick` ""quote"" 'q'
+  """"
+;}
+	MetaData
+	MetaDataX
+
+{}")).
+Eval vm_compute in ("<<<M1643>>>" ++ check (runes_of_ascii "root packet /// triple
+rootA {	i32 i32
 MetaDataX@calculatedFrom( ""CRC32"" ) `line1
 line2` , } MetaData BodyLength {
 u8
-roo'1'tA, } // c")).
-Eval vm_compute in ("<<<M1149>>>" ++ check (runes_of_ascii "
-MetaData matchKey {crc
-Pad
-`{ , }`, string
-    roots `tab	here`
-    , stringy u,  uint64 u8x `{ , }`
-    ,int A//
-`u8 x,`
-, }
-")).
-Eval vm_compute in ("<<<M1692>>>" ++ check (runes_of_ascii "root packet /// triple
+rootA, } // c")).
+Eval vm_compute in ("<<<M2324>>>" ++ check (runes_of_ascii "MetaData Packet { }packet	asx  { @lengthOf( asx) falsey`crlf
+line`
+,
+    }
+    packet x	{uint32// @lengthOf(
+rootA	,u32 options1")).
+Eval vm_compute in ("<<<M1694>>>" ++ check (runes_of_ascii "root packet /// triple
 rootA {	i32
 MetaDataX@calculatedFrom( ""CRC32"" ) `line1
-line2` , } MetaData BodyLength 
-u8
-rootA, } // c")).
-Eval vm_compute in ("<<<M1816>>>" ++ check (runes_of_ascii "packet
-    Pad // a // b
-{ i8i8 @calculatedFrom( ""a	b"") `u8 x,` `u8 x,` ,
-} options{ float// " ++ [128512]%N ++ runes_of_ascii " emoji
-= f64 i64_
-=//	t
-00 }
-")).
-Eval vm_compute in ("<<<M491>>>" ++ check (runes_of_ascii "packet crc
-{	}options { a1 = char[ 3] ;
-} root
-packet Pad{ }	packet	crc { int32
-zchar // @lengthOf(
-, } packet pack
-{ }
-")).
-Eval vm_compute in ("<<<M1823>>>" ++ check (runes_of_ascii "packet
-    Pad // a // b
-{ i8i8 @calculatedFrom( ""a	b"") `u8 x,` int8
-} options{ float// " ++ [128512]%N ++ runes_of_ascii " emoji
-= f64 i64_
-=//	t
-00 }
-")).
-Eval vm_compute in ("<<<M1793>>>" ++ check (runes_of_ascii "packet
-    Pad // a // b
-42 i8i8 @calculatedFrom( ""a	b"") `u8 x,` ,
-} options{ float// " ++ [128512]%N ++ runes_of_ascii " emoji
-= f64 i64_
-=//	t
-00 }
-")).
-Eval vm_compute in ("<<<M1827>>>" ++ check (runes_of_ascii "packet
-    Pad // a // b
-{ i8i8 @calculatedFrom( ""a	b"") `u8 x,` ,
-options }{ float// " ++ [128512]%N ++ runes_of_ascii " emoji
-= f64 i64_
-=//	t
-00 }
-")).
-Eval vm_compute in ("<<<M4086>>>" ++ check (runes_of_ascii "packet A {
-    u16 len @lengthOf(body) `a
-    b`,
-    u32 crc @calculatedFrom(""CRC32"") `a
-    b`,
-    string body,
-}")).
-Eval vm_compute in ("<<<M4358>>>" ++ check (runes_of_ascii "// c
-packet Logon {
-    @tag(42)
-    @rightPad(' ')
-    @leftPad()
-    repeat trueish {
-        string T,
-    },
-}")).
-Eval vm_compute in ("<<<M4414>>>" ++ check (runes_of_ascii "options {
-    pack = 0
-}
-
-MetaData int {
-    char[00] T `crlf
-    line`,
-    i8 string_,
-    int16 matchKey,
-}")).
-Eval vm_compute in ("<<<M4084>>>" ++ check (runes_of_ascii "packet
-
-Logon{@tag( 42)
-	@rightPad (
-
-' ' )
-	@leftPad
-
-// c
-	(	)
-repeat	trueish {
-    string
-	T
-
-,  }
-
-,  }")).
-Eval vm_compute in ("<<<M2982>>>" ++ check (runes_of_ascii "packet A {
-  match k as n {
-    [""a"", 22, ""c c"", 4, ""e"", 66, ""g"", 8, ""i"", 10, ""k""] : B,
-    2 : C
-  },
-}")).
-Eval vm_compute in ("<<<M3354>>>" ++ check (runes_of_ascii "packet calculatedFrom { @tag( 4294967296 ) u msg_type
-// c
-, char[ 3 ] crc @lengthOf( len ) `u8 x,` , }")).
-Eval vm_compute in ("<<<M3569>>>" ++ check (runes_of_ascii "packet calculatedFrom {
-    @tag(4294967296)
-    u msg_type,
-    char[3] crc @lengthOf(len) `u8 x,`,
-}")).
-Eval vm_compute in ("<<<M2970>>>" ++ check (runes_of_ascii "packet A {
-  match k as n {
-    [""a"", 22, ""c c"", 4, ""e"", 66, ""g"", 8, ""i"", 10] : B
-    2 : C
-  },
-}")).
-Eval vm_compute in ("<<<M176>>>" ++ check (runes_of_ascii "MetaData
-x_y_z
+line2` , } MetaData BodyLength u8
 {
-Logon
-    repeatCount `say ""hi""`,  crc
-    x_y_z
-,
-    char[	10 ] Foo  ,
-}
+rootA, } // c")).
+Eval vm_compute in ("<<<M612>>>" ++ check (runes_of_ascii "options
+{Header =
+4294967296 charz =true Pad =	'\x00'charz=
+    // `tick` ""quote"" 'q'
+    """"
+    ; } MetaData MetaDataX { }")).
+Eval vm_compute in ("<<<M526>>>" ++ check (runes_of_ascii "packet options1 { @calculatedFrom( ""a\\""
+)  Logon	@calculatedFrom(
+""" ++ [233]%N ++ runes_of_ascii "t" ++ [233]%N ++ runes_of_ascii """ // c
+)`a\` ,
+float32 packetx
+    `
+` ,} // a // b")).
+Eval vm_compute in ("<<<M1808>>>" ++ check (runes_of_ascii "packet
+    Pad // a // b
+{ i8i8 @calculatedFrom( @rightPad) `u8 x,` ,
+} options{ float// " ++ [128512]%N ++ runes_of_ascii " emoji
+= f64 i64_
+=//	t
+00 }
 ")).
-Eval vm_compute in ("<<<M3236>>>" ++ check (runes_of_ascii "packet Logon { @tag( 42 ) @rightPad ( ' ' ) @leftPad // c
-( ) repeat trueish { string T , } , }")).
-Eval vm_compute in ("<<<M2035>>>" ++ check (runes_of_ascii "root
-packet crc
-    { f32a @c@lengthOfalculatedFrom( """ ++ [233]%N ++ runes_of_ascii "t" ++ [233]%N ++ runes_of_ascii """ )
-    `say ""hi""`, lengthOf `` ,  }")).
-Eval vm_compute in ("<<<M2955>>>" ++ check (runes_of_ascii "packet A {
+Eval vm_compute in ("<<<M1821>>>" ++ check (runes_of_ascii "packet
+    Pad // a // b
+{ i8i8 @calculatedFrom( ""a	b"") `u8 x,` , ,
+} options{ float// " ++ [128512]%N ++ runes_of_ascii " emoji
+= f64 i64_
+=//	t
+00 }
+")).
+Eval vm_compute in ("<<<M3717>>>" ++ check (runes_of_ascii "packet repeatCount {
+}
+
+packet charz {
+    @calculatedFrom(""// no comment"")
+    int32 msg_type @lengthOf(f32a),
+}// " ++ [27880; 37322]%N)).
+Eval vm_compute in ("<<<M2991>>>" ++ check (runes_of_ascii "packet A {
   match k as n {
-    [1, ""bb"", 007, ""d"", 5, ""f"", 7, ""h"", 9] : B
+    [""a"", ""bb"", ""c c"", ""d"", ""e"", ""f"", ""g"", ""h"", ""i"", ""j"", ""k"", ""l""] : B,
     2 : C
   },
 }")).
-Eval vm_compute in ("<<<M4163>>>" ++ check (runes_of_ascii "packet
-
-A {
-match
-
-k as
-n
-
-    { [""a"",  ""bb""
-
-, 007]
-:
-
-    B
-    2
-	:	C
-    }, } ")).
-Eval vm_compute in ("<<<M1458>>>" ++ check (runes_of_ascii "root packet Foo // " ++ [128512]%N ++ runes_of_ascii " emoji
-{ } options {
-    // a // b
-    tag // `tick` ""quote"" 'q'
-=")).
-Eval vm_compute in ("<<<M2004>>>" ++ check (runes_of_ascii "root
-packet crc
-    { f32a @calculatedFrom( """ ++ [233]%N ++ runes_of_ascii "t" ++ [233]%N ++ runes_of_ascii """ )
-    `say ""hi""`] lengthOf `` ,  }")).
-Eval vm_compute in ("<<<M2011>>>" ++ check (runes_of_ascii "root
-packet crc
-    { f32a @calculatedFrom( """ ++ [233]%N ++ runes_of_ascii "t" ++ [233]%N ++ runes_of_ascii """ )
-    `say ""hi""`, lengthOf  ,  }")).
-Eval vm_compute in ("<<<M3295>>>" ++ check (runes_of_ascii "packet
-// c
-o { @tag( 42 ) repeat x { char[ 0123456789 ] i64_ , } , } options { }")).
-Eval vm_compute in ("<<<M3327>>>" ++ check (runes_of_ascii "packet o { @tag( 42 ) repeat x { char[ 0123456789 ] i64_ , } , }
-// c
-options { }")).
-Eval vm_compute in ("<<<M2909>>>" ++ check (runes_of_ascii "packet A {
-  match k as n {
-    [""a"", ""bb"", 007, ""d"", ""e""] : B
-    2 : C
-  },
-}")).
-Eval vm_compute in ("<<<M1839>>>" ++ check (runes_of_ascii "packet
+Eval vm_compute in ("<<<M1875>>>" ++ check (runes_of_ascii "packet
     Pad // a // b
 { i8i8 @calculatedFrom( ""a	b"") `u8 x,` ,
-} options")).
-Eval vm_compute in ("<<<M2906>>>" ++ check (runes_of_ascii "packet A {
+} options{ float// " ++ [128512]%N ++ runes_of_ascii " emoji
+= f64 i64_
+=//	t
+00 ")).
+Eval vm_compute in ("<<<M1805>>>" ++ check (runes_of_ascii "packet
+    Pad // a // b
+{ i8i8 @calculatedFrom( ) `u8 x,` ,
+} options{ float// " ++ [128512]%N ++ runes_of_ascii " emoji
+= f64 i64_
+=//	t
+00 }
+")).
+Eval vm_compute in ("<<<M4474>>>" ++ check (runes_of_ascii "  packet
+    Logon  {
+
+@tag(
+42)
+
+@rightPad( 
+  // c
+' '
+) @leftPad()  repeat
+
+trueish
+{
+	string 
+T, } 
+, }
+")).
+Eval vm_compute in ("<<<M1803>>>" ++ check (runes_of_ascii "packet
+    Pad // a // b
+{ i8i8 int16 ""a	b"") `u8 x,` ,
+} options{ float// " ++ [128512]%N ++ runes_of_ascii " emoji
+= f64 i64_
+=//	t
+00 }
+")).
+Eval vm_compute in ("<<<M4374>>>" ++ check (runes_of_ascii "  packet charz
+{ 	 // trailing space 
+	@tag(255 )  @calculatedFrom(
+""packet"" ) u32 repeatCount ,// c
+	}
+")).
+Eval vm_compute in ("<<<M3361>>>" ++ check (runes_of_ascii "packet calculatedFrom { @tag( 4294967296 ) u msg_type , char[ 3 ] // c
+crc @lengthOf( len ) `u8 x,` , }")).
+Eval vm_compute in ("<<<M2974>>>" ++ check (runes_of_ascii "packet A {
   match k as n {
-    [1, 22, ""c c"", 4, 5] : B,
+    [""a"", ""bb"", 007, ""d"", ""e"", 66, ""g"", ""h"", 9, ""j""] : B
     2 : C
   },
 }")).
-Eval vm_compute in ("<<<M417>>>" ++ check (runes_of_ascii "MetaData uint8x
-{ zchar[ 10]
+Eval vm_compute in ("<<<M3696>>>" ++ check (runes_of_ascii "
+packet A
+    { match  k 
+as n	{ [
+
+    1 ,22,	007 ,  4 , 5 ]:  B 
+2:
+
+    C 
+}
+
+,
+
+    }
+
+")).
+Eval vm_compute in ("<<<M327>>>" ++ check (runes_of_ascii "MetaData
+    // " ++ [128512]%N ++ runes_of_ascii " emoji
+    msg_type { As  roots , i32  rootA, f64 falsey  ,
+char[]
+rootA ,}
+")).
+Eval vm_compute in ("<<<M3237>>>" ++ check (runes_of_ascii "packet Logon { @tag( 42 ) @rightPad ( ' ' ) @leftPad
+// c
+( ) repeat trueish { string T , } , }")).
+Eval vm_compute in ("<<<M2957>>>" ++ check (runes_of_ascii "packet A {
+  match k as n {
+    [""a"", 22, ""c c"", 4, ""e"", 66, ""g"", 8, ""i""] : B
+    2 : C
+  },
+}")).
+Eval vm_compute in ("<<<M1987>>>" ++ check (runes_of_ascii "root
+packet crc
+    { f32a @calculatedFrom( """ ++ [233]%N ++ runes_of_ascii "t" ++ [233]%N ++ runes_of_ascii """ """ ++ [233]%N ++ runes_of_ascii "t" ++ [233]%N ++ runes_of_ascii """ )
+    `say ""hi""`, lengthOf `` ,  }")).
+Eval vm_compute in ("<<<M2944>>>" ++ check (runes_of_ascii "packet A {
+  match k as n {
+    [""a"", 22, ""c c"", 4, ""e"", 66, ""g"", 8] : B
+    2 : C
+  },
+}")).
+Eval vm_compute in ("<<<M2930>>>" ++ check (runes_of_ascii "packet A {
+  match k as n {
+    [""a"", 22, ""c c"", 4, ""e"", 66, ""g""] : B,
+    2 : C
+  },
+}")).
+Eval vm_compute in ("<<<M4111>>>" ++ check (runes_of_ascii "
+
+  root
+packet  f32a  {
+packetx  @calculatedFrom( ""CRC32"")
+    // a // b
+
 //x
-// trailing space 
-Foo `tab	here` , }
+	, } ")).
+Eval vm_compute in ("<<<M1991>>>" ++ check (runes_of_ascii "root
+packet crc
+    { f32a @calculatedFrom( """ ++ [233]%N ++ runes_of_ascii "t" ++ [233]%N ++ runes_of_ascii """ 
+    `say ""hi""`, lengthOf `` ,  }")).
+Eval vm_compute in ("<<<M1966>>>" ++ check (runes_of_ascii "root
+packet 
+    { f32a @calculatedFrom( """ ++ [233]%N ++ runes_of_ascii "t" ++ [233]%N ++ runes_of_ascii """ )
+    `say ""hi""`, lengthOf `` ,  }")).
+Eval vm_compute in ("<<<M3304>>>" ++ check (runes_of_ascii "packet o { @tag( 42 ) // c
+repeat x { char[ 0123456789 ] i64_ , } , } options { }")).
+Eval vm_compute in ("<<<M4030>>>" ++ check (runes_of_ascii "packet orderItem {
+    u8 a,
+}
+
+root packet newOrder {
+    orderItem,
+    u8 x,
+}")).
+Eval vm_compute in ("<<<M3607>>>" ++ check (runes_of_ascii "packet
+As {	char[ 42
+    ]
+
+    o`it's`  
+      // @lengthOf(
+		,
+
+    }
 ")).
-Eval vm_compute in ("<<<M3399>>>" ++ check (runes_of_ascii "MetaData _x { // c
-zchar[ 4294967296 ] lengthOf `// not a comment` , }")).
-Eval vm_compute in ("<<<M4367>>>" ++ check (runes_of_ascii "packet A {
-    B b `
-    `,
-    B `
-    `,
-    repeat B bs `
-    `,
-}")).
-Eval vm_compute in ("<<<M2200>>>" ++ check (runes_of_ascii "root
-    // `tick` ""quote"" 'q'
-    packet As { trueish` Packet , }
+Eval vm_compute in ("<<<M859>>>" ++ check (runes_of_ascii "
+options // `tick` ""quote"" 'q'
+{ Packet =
+'0' ;
+// " ++ [27880; 37322]%N ++ runes_of_ascii "
+// " ++ [27880; 37322]%N ++ runes_of_ascii "
+x	=
+    42 ; }
 ")).
-Eval vm_compute in ("<<<M3183>>>" ++ check (runes_of_ascii "packet A {
-    match k as n {
-        1 : B,
-        // c
-    },
+Eval vm_compute in ("<<<M2896>>>" ++ check (runes_of_ascii "packet A {
+  match k as n {
+    [""a"", ""bb"", 007, ""d""] : B
+    2 : C
+  },
 }")).
-Eval vm_compute in ("<<<M4195>>>" ++ check (runes_of_ascii "packet i64_ {
-    @leftPad('0')
-    u8 MetaDataX,
-    i16 Pad,
-}")).
-Eval vm_compute in ("<<<M1661>>>" ++ check (runes_of_ascii "root packet /// triple
-rootA {	i32
-MetaDataX@calculatedFrom(")).
-Eval vm_compute in ("<<<M228>>>" ++ check (runes_of_ascii "packet Z9_
-    { body MetaDataX , } MetaData asx  {
-} //	t")).
+Eval vm_compute in ("<<<M3661>>>" ++ check (runes_of_ascii "packet A {
+    match
+    k
+
+as
+    n
+{[ 1 , ""a""
+,2 ] : B
+	,} 
+,
+    }
+")).
+Eval vm_compute in ("<<<M3396>>>" ++ check (runes_of_ascii "MetaData
+// c
+_x { zchar[ 4294967296 ] lengthOf `// not a comment` , }")).
+Eval vm_compute in ("<<<M3458>>>" ++ check (runes_of_ascii "root packet P {
+    u16 a,
+    u32 Sum @calculatedFrom(""CR\
+C32""),
+}
+")).
+Eval vm_compute in ("<<<M930>>>" ++ check (runes_of_ascii "MetaData u8x{  char[ 0123456789 ]T  ,} options
+    {roots =
+u64 ; }")).
+Eval vm_compute in ("<<<M2936>>>" ++ check (runes_of_ascii "packet A { Inner { match k as n { [1,22,007,4,5,66,7] : B, }, }, }")).
+Eval vm_compute in ("<<<M2923>>>" ++ check (runes_of_ascii "packet A { Inner { match k as n { [1,22,007,4,5,66] : B, }, }, }")).
+Eval vm_compute in ("<<<M214>>>" ++ check (runes_of_ascii "
+MetaData string_ {Header
+    roots ,} MetaData
+MetaDataX	{ }")).
+Eval vm_compute in ("<<<M634>>>" ++ check (runes_of_ascii "  packet	As {char[ 42
+]	o
+`it's`
+    // @lengthOf(
+    ,  }")).
 Eval vm_compute in ("<<<M1254>>>" ++ check (runes_of_ascii "MetaData int {	i32 calculatedFrom
 `// not a comment` , }
 ")).
-Eval vm_compute in ("<<<M2421>>>" ++ check (runes_of_ascii "MetaData A
-@leftpad{
-i64
-chars	, } // `tick` ""quote"" 'q'")).
-Eval vm_compute in ("<<<M2180>>>" ++ check (runes_of_ascii "root
-    // `tick` ""quote"" 'q'
-    packet As { trueish")).
-Eval vm_compute in ("<<<M1918>>>" ++ check (runes_of_ascii "
+Eval vm_compute in ("<<<M1952>>>" ++ check (runes_of_ascii "
 packet	As { @calculatedFrom(//x
-:	)lengthOf , } 	 ")).
-Eval vm_compute in ("<<<M520>>>" ++ check (runes_of_ascii "MetaData	float
+""{,}""	)lengthOf" ++ [0]%N ++ runes_of_ascii " , } 	 ")).
+Eval vm_compute in ("<<<M3868>>>" ++ check (runes_of_ascii "
+
+  options
+	    // a // b
+    	// @lengthOf(
+  { }
+")).
+Eval vm_compute in ("<<<M2409>>>" ++ check (runes_of_ascii "MetaData A
 {
-    //
-    i8
-T, } // @lengthOf(")).
-Eval vm_compute in ("<<<M3158>>>" ++ check (runes_of_ascii "packet A {} packet B {} MetaData M {} options {}")).
-Eval vm_compute in ("<<<M430>>>" ++ check (runes_of_ascii "// a // b
-packet calculatedFrom{ i32
-    _x, }")).
-Eval vm_compute in ("<<<M2737>>>" ++ check (runes_of_ascii "65535 MetaData [ repeat u64 zchar[ false char")).
-Eval vm_compute in ("<<<M2560>>>" ++ check (runes_of_ascii "packet A { repeat x @calculatedFrom(""c""), }")).
-Eval vm_compute in ("<<<M824>>>" ++ check (runes_of_ascii "MetaData trueish {i8 MetaDataX // " ++ [27880; 37322]%N ++ runes_of_ascii "
-, }")).
-Eval vm_compute in ("<<<M2110>>>" ++ check (runes_of_ascii "MetaData x
-{ {// " ++ [128512]%N ++ runes_of_ascii " emoji
+string
+chars	, } // `tick` ""quote"" 'q'")).
+Eval vm_compute in ("<<<M620>>>" ++ check (runes_of_ascii "MetaData //
+body{
+    } // c
+options { // " ++ [27880; 37322]%N ++ runes_of_ascii "
+}
+")).
+Eval vm_compute in ("<<<M3750>>>" ++ check (runes_of_ascii "options {
+    float = 4294967296;
+}
+
+options {
+}")).
+Eval vm_compute in ("<<<M4143>>>" ++ check (runes_of_ascii "
+// packet A { u8 x, }
+	// `tick` ""quote"" 'q'
+")).
+Eval vm_compute in ("<<<M2608>>>" ++ check (runes_of_ascii "packet A { match k as n { [1,""a"",2] : B, }, }")).
+Eval vm_compute in ("<<<M1091>>>" ++ check (runes_of_ascii "// " ++ [128512]%N ++ runes_of_ascii " emoji
+MetaData
+    tag
+{ /// triple
+}")).
+Eval vm_compute in ("<<<M60>>>" ++ check (runes_of_ascii "root packet u
+    /// triple
+    {
+    }
+")).
+Eval vm_compute in ("<<<M2106>>>" ++ check (runes_of_ascii "MetaData x x
+{// " ++ [128512]%N ++ runes_of_ascii " emoji
 i16 stringy , }")).
-Eval vm_compute in ("<<<M3205>>>" ++ check (runes_of_ascii "MetaData zchar { zchar[ 3 ] Pad ,
-// c
+Eval vm_compute in ("<<<M3204>>>" ++ check (runes_of_ascii "MetaData zchar { zchar[ 3 ] Pad , // c
 }")).
 Eval vm_compute in ("<<<M1443>>>" ++ check (runes_of_ascii "root packet Foo // " ++ [128512]%N ++ runes_of_ascii " emoji
 { } options")).
-Eval vm_compute in ("<<<M2129>>>" ++ check (runes_of_ascii "MetaData x
+Eval vm_compute in ("<<<M2105>>>" ++ check (runes_of_ascii "MetaData 
 {// " ++ [128512]%N ++ runes_of_ascii " emoji
-i16 stringy , ")).
-Eval vm_compute in ("<<<M3973>>>" ++ check (runes_of_ascii "
-options
-	{
-
-    Z9_
-= '\x00'
-}
-
-")).
-Eval vm_compute in ("<<<M2787>>>" ++ check (runes_of_ascii ";/,8.Dx&ZOZt4UM$f5a6\qFvu)[+P_;Nc*")).
-Eval vm_compute in ("<<<M2714>>>" ++ check (runes_of_ascii "( char[] ] zchar[ Foo int32 int8")).
-Eval vm_compute in ("<<<M328>>>" ++ check (runes_of_ascii "root packet roots
-//x
-// " ++ [27880; 37322]%N ++ runes_of_ascii "
-{}")).
-Eval vm_compute in ("<<<M3161>>>" ++ check (runes_of_ascii "MetaData M {
-}// c
-packet A {}")).
-Eval vm_compute in ("<<<M2648>>>" ++ check (runes_of_ascii "MetaData M { @tag(1) u8 x, }")).
-Eval vm_compute in ("<<<M3150>>>" ++ check (runes_of_ascii "packet A {
-}// a// b// c
-")).
-Eval vm_compute in ("<<<M614>>>" ++ check (runes_of_ascii "MetaData repeatCount {
+i16 stringy , }")).
+Eval vm_compute in ("<<<M4120>>>" ++ check (runes_of_ascii "MetaData zchar {
+    zchar[3] Pad,
 }")).
-Eval vm_compute in ("<<<M722>>>" ++ check (runes_of_ascii "packet
-MetaDataX
-    { }")).
-Eval vm_compute in ("<<<M3382>>>" ++ check (runes_of_ascii "packet // c
-lengthOf { }")).
-Eval vm_compute in ("<<<M413>>>" ++ check (runes_of_ascii "
-packet msg_type {
-}
+Eval vm_compute in ("<<<M3175>>>" ++ check (runes_of_ascii "packet A { @tag( // a
+ 1 ) u8 x, }")).
+Eval vm_compute in ("<<<M3043>>>" ++ check (runes_of_ascii "root packet A {
+    u8 x `
+x`,
+}")).
+Eval vm_compute in ("<<<M2054>>>" ++ check (runes_of_ascii "MetaData options { u64 pack, }")).
+Eval vm_compute in ("<<<M937>>>" ++ check (runes_of_ascii "packet  f32a {stringy
+`` , }
 ")).
-Eval vm_compute in ("<<<M2050>>>" ++ check (runes_of_ascii "@tag( A { u64 pack, }")).
-Eval vm_compute in ("<<<M2697>>>" ++ check (runes_of_ascii "options """ ++ [128512]%N ++ runes_of_ascii """ `" ++ [28040; 24687; 31867; 22411]%N ++ runes_of_ascii "` }")).
-Eval vm_compute in ("<<<M3147>>>" ++ check (runes_of_ascii "// c x
+Eval vm_compute in ("<<<M2839>>>" ++ check (runes_of_ascii """{,}"" uint32 MetaData packet")).
+Eval vm_compute in ("<<<M4479>>>" ++ check (runes_of_ascii "  options
+
+{ int	= i16 
+;
+}")).
+Eval vm_compute in ("<<<M1308>>>" ++ check (runes_of_ascii "
+root
+packet len
+{
+    }
+")).
+Eval vm_compute in ("<<<M1003>>>" ++ check (runes_of_ascii "packet repeatCount {} //")).
+Eval vm_compute in ("<<<M3385>>>" ++ check (runes_of_ascii "packet lengthOf
+// c
+{ }")).
+Eval vm_compute in ("<<<M227>>>" ++ check (runes_of_ascii " // packet A { u8 x, }")).
+Eval vm_compute in ("<<<M2069>>>" ++ check (runes_of_ascii "MetaData A { u64 ,, }")).
+Eval vm_compute in ("<<<M2699>>>" ++ check ([65533; 65533]%N ++ runes_of_ascii "0" ++ [65533; 5; 65533]%N ++ runes_of_ascii "b_" ++ [65533]%N ++ runes_of_ascii "!" ++ [11; 65533; 65533; 65533; 29; 65533]%N ++ runes_of_ascii "XR" ++ [65533]%N ++ runes_of_ascii ";")).
+Eval vm_compute in ("<<<M3628>>>" ++ check (runes_of_ascii "packet A {
+    x,
+}")).
+Eval vm_compute in ("<<<M3072>>>" ++ check (runes_of_ascii "// c" ++ [160]%N ++ runes_of_ascii "
 packet A {
 }")).
-Eval vm_compute in ("<<<M3082>>>" ++ check (runes_of_ascii "// c" ++ [5760]%N ++ runes_of_ascii "
-packet A {
-}")).
-Eval vm_compute in ("<<<M2027>>>" ++ check (runes_of_ascii "root
-packet crc
-")).
-Eval vm_compute in ("<<<M3139>>>" ++ check (runes_of_ascii "packet A {
-}// c" ++ [6158]%N)).
-Eval vm_compute in ("<<<M2491>>>" ++ check (runes_of_ascii "@calculatedFrom")).
-Eval vm_compute in ("<<<M2746>>>" ++ check (runes_of_ascii "uint16 = int8")).
-Eval vm_compute in ("<<<M2060>>>" ++ check (runes_of_ascii "MetaData A")).
-Eval vm_compute in ("<<<M2752>>>" ++ check (runes_of_ascii "nz:c/H>Q")).
-Eval vm_compute in ("<<<M2450>>>" ++ check (runes_of_ascii "falsey")).
-Eval vm_compute in ("<<<M2482>>>" ++ check (runes_of_ascii "@left")).
-Eval vm_compute in ("<<<M1418>>>" ++ check (runes_of_ascii "root")).
-Eval vm_compute in ("<<<M2468>>>" ++ check (runes_of_ascii "'0'")).
-Eval vm_compute in ("<<<M2451>>>" ++ check (runes_of_ascii "as")).
-Eval vm_compute in ("<<<M2671>>>" ++ check (runes_of_ascii "}")).
+Eval vm_compute in ("<<<M37>>>" ++ check (runes_of_ascii "MetaData charz{ }")).
+Eval vm_compute in ("<<<M3119>>>" ++ check (runes_of_ascii "packet A {
+}// c" ++ [12]%N)).
+Eval vm_compute in ("<<<M2224>>>" ++ check (runes_of_ascii "MetaData Packet")).
+Eval vm_compute in ("<<<M2751>>>" ++ check ([26; 21]%N ++ runes_of_ascii "G" ++ [65533]%N ++ runes_of_ascii "t~" ++ [28]%N ++ runes_of_ascii "?" ++ [65533]%N ++ runes_of_ascii "w" ++ [65533; 65533]%N)).
+Eval vm_compute in ("<<<M2113>>>" ++ check (runes_of_ascii "MetaData x")).
+Eval vm_compute in ("<<<M1746>>>" ++ check (runes_of_ascii "options")).
+Eval vm_compute in ("<<<M2512>>>" ++ check (runes_of_ascii """a\b""")).
+Eval vm_compute in ("<<<M2724>>>" ++ check (runes_of_ascii "d=hM_")).
+Eval vm_compute in ("<<<M2476>>>" ++ check (runes_of_ascii "'  '")).
+Eval vm_compute in ("<<<M2515>>>" ++ check (runes_of_ascii """`""")).
+Eval vm_compute in ("<<<M2517>>>" ++ check (runes_of_ascii "``")).
+Eval vm_compute in ("<<<M2702>>>" ++ check (runes_of_ascii "{")).
